@@ -105,7 +105,8 @@ structure LInv (s : St) : Prop where
 theorem stepP_LInv_none (s : St) (i : Nat) (op : Option POp)  (hpc : s.pp i = .none ) (h : LInv s) : LInv (stepP s i op) := by
   obtain ⟨hv, h1, h2, h3, h4, h5, h6, h7, h8, h9, h10, h11⟩ := h
   have hp : s.v.plock = true := by rw [hv]; rfl
-  simp only [stepP, hpc, startP, St.endSample, St.beginSample, St.setP, hp, if_true, trackCloneInc_val, trackDropDec_val, trackCloseWhenPrev_val]
+  have hq : s.v.pipe = false := by rw [hv]; rfl
+  simp only [stepP, hpc, startP, St.endSample, St.beginSample, St.setP, hp, hq, Bool.false_eq_true, if_false, if_true, trackCloneInc_val, trackDropDec_val, trackCloseWhenPrev_val]
   repeat' split
   all_goals first
     | exact ⟨hv, h1, h2, h3, h4, h5, h6, h7, h8, h9, h10, h11⟩
@@ -116,7 +117,8 @@ theorem stepP_LInv_none (s : St) (i : Nat) (op : Option POp)  (hpc : s.pp i = .n
 theorem stepP_LInv_reserved (s : St) (i : Nat) (op : Option POp)  (hpc : s.pp i = .reserved ) (h : LInv s) : LInv (stepP s i op) := by
   obtain ⟨hv, h1, h2, h3, h4, h5, h6, h7, h8, h9, h10, h11⟩ := h
   have hp : s.v.plock = true := by rw [hv]; rfl
-  simp only [stepP, hpc, startP, St.endSample, St.beginSample, St.setP, hp, if_true, trackCloneInc_val, trackDropDec_val, trackCloseWhenPrev_val]
+  have hq : s.v.pipe = false := by rw [hv]; rfl
+  simp only [stepP, hpc, startP, St.endSample, St.beginSample, St.setP, hp, hq, Bool.false_eq_true, if_false, if_true, trackCloneInc_val, trackDropDec_val, trackCloseWhenPrev_val]
   repeat' split
   all_goals first
     | exact ⟨hv, h1, h2, h3, h4, h5, h6, h7, h8, h9, h10, h11⟩
@@ -127,7 +129,8 @@ theorem stepP_LInv_reserved (s : St) (i : Nat) (op : Option POp)  (hpc : s.pp i 
 theorem stepP_LInv_gone (s : St) (i : Nat) (op : Option POp)  (hpc : s.pp i = .gone ) (h : LInv s) : LInv (stepP s i op) := by
   obtain ⟨hv, h1, h2, h3, h4, h5, h6, h7, h8, h9, h10, h11⟩ := h
   have hp : s.v.plock = true := by rw [hv]; rfl
-  simp only [stepP, hpc, startP, St.endSample, St.beginSample, St.setP, hp, if_true, trackCloneInc_val, trackDropDec_val, trackCloseWhenPrev_val]
+  have hq : s.v.pipe = false := by rw [hv]; rfl
+  simp only [stepP, hpc, startP, St.endSample, St.beginSample, St.setP, hp, hq, Bool.false_eq_true, if_false, if_true, trackCloneInc_val, trackDropDec_val, trackCloseWhenPrev_val]
   repeat' split
   all_goals first
     | exact ⟨hv, h1, h2, h3, h4, h5, h6, h7, h8, h9, h10, h11⟩
@@ -138,7 +141,8 @@ theorem stepP_LInv_gone (s : St) (i : Nat) (op : Option POp)  (hpc : s.pp i = .g
 theorem stepP_LInv_idle (s : St) (i : Nat) (op : Option POp)  (hpc : s.pp i = .idle ) (h : LInv s) : LInv (stepP s i op) := by
   obtain ⟨hv, h1, h2, h3, h4, h5, h6, h7, h8, h9, h10, h11⟩ := h
   have hp : s.v.plock = true := by rw [hv]; rfl
-  simp only [stepP, hpc, startP, St.endSample, St.beginSample, St.setP, hp, if_true, trackCloneInc_val, trackDropDec_val, trackCloseWhenPrev_val]
+  have hq : s.v.pipe = false := by rw [hv]; rfl
+  simp only [stepP, hpc, startP, St.endSample, St.beginSample, St.setP, hp, hq, Bool.false_eq_true, if_false, if_true, trackCloneInc_val, trackDropDec_val, trackCloseWhenPrev_val]
   repeat' split
   all_goals first
     | exact ⟨hv, h1, h2, h3, h4, h5, h6, h7, h8, h9, h10, h11⟩
@@ -149,7 +153,8 @@ theorem stepP_LInv_idle (s : St) (i : Nat) (op : Option POp)  (hpc : s.pp i = .i
 theorem stepP_LInv_acq (s : St) (i : Nat) (op : Option POp) (k v rest) (hpc : s.pp i = .acq k v rest) (h : LInv s) : LInv (stepP s i op) := by
   obtain ⟨hv, h1, h2, h3, h4, h5, h6, h7, h8, h9, h10, h11⟩ := h
   have hp : s.v.plock = true := by rw [hv]; rfl
-  simp only [stepP, hpc, startP, St.endSample, St.beginSample, St.setP, hp, if_true, trackCloneInc_val, trackDropDec_val, trackCloseWhenPrev_val]
+  have hq : s.v.pipe = false := by rw [hv]; rfl
+  simp only [stepP, hpc, startP, St.endSample, St.beginSample, St.setP, hp, hq, Bool.false_eq_true, if_false, if_true, trackCloneInc_val, trackDropDec_val, trackCloseWhenPrev_val]
   repeat' split
   all_goals first
     | exact ⟨hv, h1, h2, h3, h4, h5, h6, h7, h8, h9, h10, h11⟩
@@ -160,7 +165,8 @@ theorem stepP_LInv_acq (s : St) (i : Nat) (op : Option POp) (k v rest) (hpc : s.
 theorem stepP_LInv_chk (s : St) (i : Nat) (op : Option POp) (k v rest) (hpc : s.pp i = .chk k v rest) (h : LInv s) : LInv (stepP s i op) := by
   obtain ⟨hv, h1, h2, h3, h4, h5, h6, h7, h8, h9, h10, h11⟩ := h
   have hp : s.v.plock = true := by rw [hv]; rfl
-  simp only [stepP, hpc, startP, St.endSample, St.beginSample, St.setP, hp, if_true, trackCloneInc_val, trackDropDec_val, trackCloseWhenPrev_val]
+  have hq : s.v.pipe = false := by rw [hv]; rfl
+  simp only [stepP, hpc, startP, St.endSample, St.beginSample, St.setP, hp, hq, Bool.false_eq_true, if_false, if_true, trackCloneInc_val, trackDropDec_val, trackCloseWhenPrev_val]
   repeat' split
   all_goals first
     | exact ⟨hv, h1, h2, h3, h4, h5, h6, h7, h8, h9, h10, h11⟩
@@ -171,7 +177,8 @@ theorem stepP_LInv_chk (s : St) (i : Nat) (op : Option POp) (k v rest) (hpc : s.
 theorem stepP_LInv_push (s : St) (i : Nat) (op : Option POp) (c v rest p) (hpc : s.pp i = .push c v rest p) (h : LInv s) : LInv (stepP s i op) := by
   obtain ⟨hv, h1, h2, h3, h4, h5, h6, h7, h8, h9, h10, h11⟩ := h
   have hp : s.v.plock = true := by rw [hv]; rfl
-  simp only [stepP, hpc, startP, St.endSample, St.beginSample, St.setP, hp, if_true, trackCloneInc_val, trackDropDec_val, trackCloseWhenPrev_val]
+  have hq : s.v.pipe = false := by rw [hv]; rfl
+  simp only [stepP, hpc, startP, St.endSample, St.beginSample, St.setP, hp, hq, Bool.false_eq_true, if_false, if_true, trackCloneInc_val, trackDropDec_val, trackCloseWhenPrev_val]
   repeat' split
   all_goals first
     | exact ⟨hv, h1, h2, h3, h4, h5, h6, h7, h8, h9, h10, h11⟩
@@ -182,7 +189,8 @@ theorem stepP_LInv_push (s : St) (i : Nat) (op : Option POp) (c v rest p) (hpc :
 theorem stepP_LInv_ntf (s : St) (i : Nat) (op : Option POp) (c rest) (hpc : s.pp i = .ntf c rest) (h : LInv s) : LInv (stepP s i op) := by
   obtain ⟨hv, h1, h2, h3, h4, h5, h6, h7, h8, h9, h10, h11⟩ := h
   have hp : s.v.plock = true := by rw [hv]; rfl
-  simp only [stepP, hpc, startP, St.endSample, St.beginSample, St.setP, hp, if_true, trackCloneInc_val, trackDropDec_val, trackCloseWhenPrev_val]
+  have hq : s.v.pipe = false := by rw [hv]; rfl
+  simp only [stepP, hpc, startP, St.endSample, St.beginSample, St.setP, hp, hq, Bool.false_eq_true, if_false, if_true, trackCloneInc_val, trackDropDec_val, trackCloseWhenPrev_val]
   repeat' split
   all_goals first
     | exact ⟨hv, h1, h2, h3, h4, h5, h6, h7, h8, h9, h10, h11⟩
@@ -193,7 +201,8 @@ theorem stepP_LInv_ntf (s : St) (i : Nat) (op : Option POp) (c rest) (hpc : s.pp
 theorem stepP_LInv_tryLock (s : St) (i : Nat) (op : Option POp) (v rest) (hpc : s.pp i = .tryLock v rest) (h : LInv s) : LInv (stepP s i op) := by
   obtain ⟨hv, h1, h2, h3, h4, h5, h6, h7, h8, h9, h10, h11⟩ := h
   have hp : s.v.plock = true := by rw [hv]; rfl
-  simp only [stepP, hpc, startP, St.endSample, St.beginSample, St.setP, hp, if_true, trackCloneInc_val, trackDropDec_val, trackCloseWhenPrev_val]
+  have hq : s.v.pipe = false := by rw [hv]; rfl
+  simp only [stepP, hpc, startP, St.endSample, St.beginSample, St.setP, hp, hq, Bool.false_eq_true, if_false, if_true, trackCloneInc_val, trackDropDec_val, trackCloseWhenPrev_val]
   repeat' split
   all_goals first
     | exact ⟨hv, h1, h2, h3, h4, h5, h6, h7, h8, h9, h10, h11⟩
@@ -204,7 +213,8 @@ theorem stepP_LInv_tryLock (s : St) (i : Nat) (op : Option POp) (v rest) (hpc : 
 theorem stepP_LInv_pop (s : St) (i : Nat) (op : Option POp) (v rest p) (hpc : s.pp i = .pop v rest p) (h : LInv s) : LInv (stepP s i op) := by
   obtain ⟨hv, h1, h2, h3, h4, h5, h6, h7, h8, h9, h10, h11⟩ := h
   have hp : s.v.plock = true := by rw [hv]; rfl
-  simp only [stepP, hpc, startP, St.endSample, St.beginSample, St.setP, hp, if_true, trackCloneInc_val, trackDropDec_val, trackCloseWhenPrev_val]
+  have hq : s.v.pipe = false := by rw [hv]; rfl
+  simp only [stepP, hpc, startP, St.endSample, St.beginSample, St.setP, hp, hq, Bool.false_eq_true, if_false, if_true, trackCloneInc_val, trackDropDec_val, trackCloseWhenPrev_val]
   repeat' split
   all_goals first
     | exact ⟨hv, h1, h2, h3, h4, h5, h6, h7, h8, h9, h10, h11⟩
@@ -215,12 +225,13 @@ theorem stepP_LInv_pop (s : St) (i : Nat) (op : Option POp) (v rest p) (hpc : s.
 theorem stepP_LInv_clone (s : St) (i : Nat) (op : Option POp) (j') (hpc : s.pp i = .clone j') (h : LInv s) : LInv (stepP s i op) := by
   obtain ⟨hv, h1, h2, h3, h4, h5, h6, h7, h8, h9, h10, h11⟩ := h
   have hp : s.v.plock = true := by rw [hv]; rfl
+  have hq : s.v.pipe = false := by rw [hv]; rfl
   have hres := h5 i j' hpc
   have hnm : j' ∉ s.live := fun hm => by have := (h7 j').1 hm; simp [hres, hasHandle] at this
   have hnd : (s.live ++ [j']).Nodup := by
     rw [List.nodup_append]; exact ⟨h8, by simp, by intro a ha b hb; simp at hb; subst hb; exact fun e => hnm (e ▸ ha)⟩
   have hlen : (s.live ++ [j']).length = s.live.length + 1 := by simp
-  simp only [stepP, hpc, startP, St.endSample, St.beginSample, St.setP, hp, if_true, trackCloneInc_val, trackDropDec_val, trackCloseWhenPrev_val]
+  simp only [stepP, hpc, startP, St.endSample, St.beginSample, St.setP, hp, hq, Bool.false_eq_true, if_false, if_true, trackCloneInc_val, trackDropDec_val, trackCloseWhenPrev_val]
   repeat' split
   all_goals first
     | exact ⟨hv, h1, h2, h3, h4, h5, h6, h7, h8, h9, h10, h11⟩
@@ -231,13 +242,14 @@ theorem stepP_LInv_clone (s : St) (i : Nat) (op : Option POp) (j') (hpc : s.pp i
 theorem stepP_LInv_fetchSub (s : St) (i : Nat) (op : Option POp)  (hpc : s.pp i = .fetchSub ) (h : LInv s) : LInv (stepP s i op) := by
   obtain ⟨hv, h1, h2, h3, h4, h5, h6, h7, h8, h9, h10, h11⟩ := h
   have hp : s.v.plock = true := by rw [hv]; rfl
+  have hq : s.v.pipe = false := by rw [hv]; rfl
   have hmem : i ∈ s.live := (h7 i).2 (by simp [hpc, hasHandle])
   have hlen := List.length_erase_of_mem hmem
   have hnd := h8.erase i
   have hpos : 0 < s.live.length := List.length_pos_of_mem hmem
   have hnil : s.live.length = 1 → s.live.erase i = [] := fun h => List.eq_nil_of_length_eq_zero (by omega)
   have hme : ∀ j, j ∈ s.live.erase i ↔ j ≠ i ∧ j ∈ s.live := fun j => h8.mem_erase_iff
-  simp only [stepP, hpc, startP, St.endSample, St.beginSample, St.setP, hp, if_true, trackCloneInc_val, trackDropDec_val, trackCloseWhenPrev_val]
+  simp only [stepP, hpc, startP, St.endSample, St.beginSample, St.setP, hp, hq, Bool.false_eq_true, if_false, if_true, trackCloneInc_val, trackDropDec_val, trackCloseWhenPrev_val]
   by_cases hs : s.senders = 1 <;> simp only [hs, if_true, if_false]
   all_goals first
     | exact ⟨hv, h1, h2, h3, h4, h5, h6, h7, h8, h9, h10, h11⟩
@@ -248,7 +260,8 @@ theorem stepP_LInv_fetchSub (s : St) (i : Nat) (op : Option POp)  (hpc : s.pp i 
 theorem stepP_LInv_stClosed (s : St) (i : Nat) (op : Option POp)  (hpc : s.pp i = .stClosed ) (h : LInv s) : LInv (stepP s i op) := by
   obtain ⟨hv, h1, h2, h3, h4, h5, h6, h7, h8, h9, h10, h11⟩ := h
   have hp : s.v.plock = true := by rw [hv]; rfl
-  simp only [stepP, hpc, startP, St.endSample, St.beginSample, St.setP, hp, if_true, trackCloneInc_val, trackDropDec_val, trackCloseWhenPrev_val]
+  have hq : s.v.pipe = false := by rw [hv]; rfl
+  simp only [stepP, hpc, startP, St.endSample, St.beginSample, St.setP, hp, hq, Bool.false_eq_true, if_false, if_true, trackCloneInc_val, trackDropDec_val, trackCloseWhenPrev_val]
   repeat' split
   all_goals first
     | exact ⟨hv, h1, h2, h3, h4, h5, h6, h7, h8, h9, h10, h11⟩
@@ -259,7 +272,8 @@ theorem stepP_LInv_stClosed (s : St) (i : Nat) (op : Option POp)  (hpc : s.pp i 
 theorem stepP_LInv_ntfW (s : St) (i : Nat) (op : Option POp)  (hpc : s.pp i = .ntfW ) (h : LInv s) : LInv (stepP s i op) := by
   obtain ⟨hv, h1, h2, h3, h4, h5, h6, h7, h8, h9, h10, h11⟩ := h
   have hp : s.v.plock = true := by rw [hv]; rfl
-  simp only [stepP, hpc, startP, St.endSample, St.beginSample, St.setP, hp, if_true, trackCloneInc_val, trackDropDec_val, trackCloseWhenPrev_val]
+  have hq : s.v.pipe = false := by rw [hv]; rfl
+  simp only [stepP, hpc, startP, St.endSample, St.beginSample, St.setP, hp, hq, Bool.false_eq_true, if_false, if_true, trackCloneInc_val, trackDropDec_val, trackCloseWhenPrev_val]
   repeat' split
   all_goals first
     | exact ⟨hv, h1, h2, h3, h4, h5, h6, h7, h8, h9, h10, h11⟩
@@ -454,6 +468,8 @@ theorem step_LInv (s : St) (l : Label) (h : LInv s) : LInv (step s l) := by
   | prod i op => exact stepP_LInv s i op h
   | cons st => exact stepC_LInv s st h
   | stop st => exact stepS_LInv s st h
+  | rcv op => have hq : s.v.pipe = false := by rw [h.var]; rfl
+              simpa [step, stepR, hq] using h
 
 theorem LInv.init (cap W : Nat) : LInv (St.init Variant.cur cap W 0) := by
   refine ⟨rfl, ?_, ?_, ?_, ?_, ?_, ?_, ?_, ?_, ?_, ?_, ?_⟩
@@ -481,34 +497,38 @@ theorem views_upd_nolock (s : St) (hL : LInv s) (i : Nat) (pc : PPc) (pp' : Nat 
   · intro e; have := (hL.poplockP i).2 e; simp [hn2] at this
 
 theorem stepP_ring_none (s : St) (i : Nat) (op : Option POp)  (hpc : s.pp i = .none )
-    (h : TInv s) (hw : NoWrap s.ring) : RingInv (stepP s i op).ring (stepP s i op).puView (stepP s i op).poView := by
+    (h : TInv s) : RingInv (stepP s i op).ring (stepP s i op).puView (stepP s i op).poView := by
   obtain ⟨⟨hv, h1, h2, h3, h4, h5, h6, h7, h8, h9, h10, h11⟩, hring⟩ := h
   have hp : s.v.plock = true := by rw [hv]; rfl
-  simp only [stepP, hpc, startP, St.endSample, St.beginSample, St.setP, hp, if_true, trackCloneInc_val, trackDropDec_val, trackCloseWhenPrev_val]
+  have hq : s.v.pipe = false := by rw [hv]; rfl
+  simp only [stepP, hpc, startP, St.endSample, St.beginSample, St.setP, hp, hq, Bool.false_eq_true, if_false, if_true, trackCloneInc_val, trackDropDec_val, trackCloseWhenPrev_val]
   repeat' split
   all_goals grind [St.puView, St.poView, pushView, popViewP, popViewC, upd, holdsPush, holdsPopP, holdsPopC, startPush', startPop']
 
 theorem stepP_ring_reserved (s : St) (i : Nat) (op : Option POp)  (hpc : s.pp i = .reserved )
-    (h : TInv s) (hw : NoWrap s.ring) : RingInv (stepP s i op).ring (stepP s i op).puView (stepP s i op).poView := by
+    (h : TInv s) : RingInv (stepP s i op).ring (stepP s i op).puView (stepP s i op).poView := by
   obtain ⟨⟨hv, h1, h2, h3, h4, h5, h6, h7, h8, h9, h10, h11⟩, hring⟩ := h
   have hp : s.v.plock = true := by rw [hv]; rfl
-  simp only [stepP, hpc, startP, St.endSample, St.beginSample, St.setP, hp, if_true, trackCloneInc_val, trackDropDec_val, trackCloseWhenPrev_val]
+  have hq : s.v.pipe = false := by rw [hv]; rfl
+  simp only [stepP, hpc, startP, St.endSample, St.beginSample, St.setP, hp, hq, Bool.false_eq_true, if_false, if_true, trackCloneInc_val, trackDropDec_val, trackCloseWhenPrev_val]
   repeat' split
   all_goals grind [St.puView, St.poView, pushView, popViewP, popViewC, upd, holdsPush, holdsPopP, holdsPopC, startPush', startPop']
 
 theorem stepP_ring_gone (s : St) (i : Nat) (op : Option POp)  (hpc : s.pp i = .gone )
-    (h : TInv s) (hw : NoWrap s.ring) : RingInv (stepP s i op).ring (stepP s i op).puView (stepP s i op).poView := by
+    (h : TInv s) : RingInv (stepP s i op).ring (stepP s i op).puView (stepP s i op).poView := by
   obtain ⟨⟨hv, h1, h2, h3, h4, h5, h6, h7, h8, h9, h10, h11⟩, hring⟩ := h
   have hp : s.v.plock = true := by rw [hv]; rfl
-  simp only [stepP, hpc, startP, St.endSample, St.beginSample, St.setP, hp, if_true, trackCloneInc_val, trackDropDec_val, trackCloseWhenPrev_val]
+  have hq : s.v.pipe = false := by rw [hv]; rfl
+  simp only [stepP, hpc, startP, St.endSample, St.beginSample, St.setP, hp, hq, Bool.false_eq_true, if_false, if_true, trackCloneInc_val, trackDropDec_val, trackCloseWhenPrev_val]
   repeat' split
   all_goals grind [St.puView, St.poView, pushView, popViewP, popViewC, upd, holdsPush, holdsPopP, holdsPopC, startPush', startPop']
 
 theorem stepP_ring_idle (s : St) (i : Nat) (op : Option POp)  (hpc : s.pp i = .idle )
-    (h : TInv s) (hw : NoWrap s.ring) : RingInv (stepP s i op).ring (stepP s i op).puView (stepP s i op).poView := by
+    (h : TInv s) : RingInv (stepP s i op).ring (stepP s i op).puView (stepP s i op).poView := by
   have hL := h.l
   have hring := h.ring
   have hp : s.v.plock = true := by rw [hL.var]; rfl
+  have hq : s.v.pipe = false := by rw [hL.var]; rfl
   have hn1 : holdsPush (s.pp i) = false := by simp [hpc, holdsPush]
   have hn2 : holdsPopP (s.pp i) = false := by simp [hpc, holdsPopP]
   simp only [stepP, hpc]
@@ -521,11 +541,11 @@ theorem stepP_ring_idle (s : St) (i : Nat) (op : Option POp)  (hpc : s.pp i = .i
       | nil => exact hring
       | cons v rest =>
         have := views_upd_nolock s hL i (.acq .send v rest) s.pp hn1 hn2
-        simp only [startP, St.beginSample, hp, if_true, St.setP, St.puView_eq, St.poView_eq] at hring ⊢
+        simp only [startP, St.beginSample, hp, hq, Bool.false_eq_true, if_false, if_true, St.setP, St.puView_eq, St.poView_eq] at hring ⊢
         rw [this.1, this.2]; exact hring
     | trySend v =>
       have := views_upd_nolock s hL i (.acq .try_ v []) s.pp hn1 hn2
-      simp only [startP, St.beginSample, hp, if_true, St.setP, St.puView_eq, St.poView_eq] at hring ⊢
+      simp only [startP, St.beginSample, hp, hq, Bool.false_eq_true, if_false, if_true, St.setP, St.puView_eq, St.poView_eq] at hring ⊢
       rw [this.1, this.2]; exact hring
     | cloneTo j =>
       simp only [startP]
@@ -538,69 +558,75 @@ theorem stepP_ring_idle (s : St) (i : Nat) (op : Option POp)  (hpc : s.pp i = .i
       · exact hring
     | dropSrc =>
       have := views_upd_nolock s hL i .fetchSub s.pp hn1 hn2
-      simp only [startP, St.setP, St.puView_eq, St.poView_eq] at hring ⊢
+      simp only [startP, hq, Bool.false_eq_true, if_false, St.setP, St.puView_eq, St.poView_eq] at hring ⊢
       rw [this.1, this.2]; exact hring
 
 theorem stepP_ring_acq (s : St) (i : Nat) (op : Option POp) (k v rest) (hpc : s.pp i = .acq k v rest)
-    (h : TInv s) (hw : NoWrap s.ring) : RingInv (stepP s i op).ring (stepP s i op).puView (stepP s i op).poView := by
+    (h : TInv s) : RingInv (stepP s i op).ring (stepP s i op).puView (stepP s i op).poView := by
   obtain ⟨⟨hv, h1, h2, h3, h4, h5, h6, h7, h8, h9, h10, h11⟩, hring⟩ := h
   have hp : s.v.plock = true := by rw [hv]; rfl
-  simp only [stepP, hpc, startP, St.endSample, St.beginSample, St.setP, hp, if_true, trackCloneInc_val, trackDropDec_val, trackCloseWhenPrev_val]
+  have hq : s.v.pipe = false := by rw [hv]; rfl
+  simp only [stepP, hpc, startP, St.endSample, St.beginSample, St.setP, hp, hq, Bool.false_eq_true, if_false, if_true, trackCloneInc_val, trackDropDec_val, trackCloseWhenPrev_val]
   repeat' split
   all_goals grind [St.puView, St.poView, pushView, popViewP, popViewC, upd, holdsPush, holdsPopP, holdsPopC, startPush', startPop']
 
 theorem stepP_ring_chk (s : St) (i : Nat) (op : Option POp) (k v rest) (hpc : s.pp i = .chk k v rest)
-    (h : TInv s) (hw : NoWrap s.ring) : RingInv (stepP s i op).ring (stepP s i op).puView (stepP s i op).poView := by
+    (h : TInv s) : RingInv (stepP s i op).ring (stepP s i op).puView (stepP s i op).poView := by
   obtain ⟨⟨hv, h1, h2, h3, h4, h5, h6, h7, h8, h9, h10, h11⟩, hring⟩ := h
   have hp : s.v.plock = true := by rw [hv]; rfl
-  simp only [stepP, hpc, startP, St.endSample, St.beginSample, St.setP, hp, if_true, trackCloneInc_val, trackDropDec_val, trackCloseWhenPrev_val]
+  have hq : s.v.pipe = false := by rw [hv]; rfl
+  simp only [stepP, hpc, startP, St.endSample, St.beginSample, St.setP, hp, hq, Bool.false_eq_true, if_false, if_true, trackCloneInc_val, trackDropDec_val, trackCloseWhenPrev_val]
   repeat' split
   all_goals grind [St.puView, St.poView, pushView, popViewP, popViewC, upd, holdsPush, holdsPopP, holdsPopC, startPush', startPop']
 
 theorem stepP_ring_push (s : St) (i : Nat) (op : Option POp) (c v rest p) (hpc : s.pp i = .push c v rest p)
-    (h : TInv s) (hw : NoWrap s.ring) : RingInv (stepP s i op).ring (stepP s i op).puView (stepP s i op).poView := by
+    (h : TInv s) : RingInv (stepP s i op).ring (stepP s i op).puView (stepP s i op).poView := by
   obtain ⟨⟨hv, h1, h2, h3, h4, h5, h6, h7, h8, h9, h10, h11⟩, hring⟩ := h
   have hp : s.v.plock = true := by rw [hv]; rfl
+  have hq : s.v.pipe = false := by rw [hv]; rfl
   have hpl : s.plock = some i := (h1 i).1 (by simp [hpc, holdsPush])
   have hview : s.puView = some (p, (i, v)) := by simp [St.puView, hpl, hpc, pushView]
   rw [hview] at hring
-  obtain ⟨k1, k2, k3⟩ := pushStep_inv hring hw
-  simp only [stepP, hpc, startP, St.endSample, St.beginSample, St.setP, hp, if_true, trackCloneInc_val, trackDropDec_val, trackCloseWhenPrev_val]
+  obtain ⟨k1, k2, k3⟩ := pushStep_inv hring
+  simp only [stepP, hpc, startP, St.endSample, St.beginSample, St.setP, hp, hq, Bool.false_eq_true, if_false, if_true, trackCloneInc_val, trackDropDec_val, trackCloseWhenPrev_val]
   repeat' split
   all_goals grind [St.puView, St.poView, pushView, popViewP, popViewC, upd, holdsPush, holdsPopP, holdsPopC, startPush', startPop']
 
 theorem stepP_ring_ntf (s : St) (i : Nat) (op : Option POp) (c rest) (hpc : s.pp i = .ntf c rest)
-    (h : TInv s) (hw : NoWrap s.ring) : RingInv (stepP s i op).ring (stepP s i op).puView (stepP s i op).poView := by
+    (h : TInv s) : RingInv (stepP s i op).ring (stepP s i op).puView (stepP s i op).poView := by
   obtain ⟨⟨hv, h1, h2, h3, h4, h5, h6, h7, h8, h9, h10, h11⟩, hring⟩ := h
   have hp : s.v.plock = true := by rw [hv]; rfl
-  simp only [stepP, hpc, startP, St.endSample, St.beginSample, St.setP, hp, if_true, trackCloneInc_val, trackDropDec_val, trackCloseWhenPrev_val]
+  have hq : s.v.pipe = false := by rw [hv]; rfl
+  simp only [stepP, hpc, startP, St.endSample, St.beginSample, St.setP, hp, hq, Bool.false_eq_true, if_false, if_true, trackCloneInc_val, trackDropDec_val, trackCloseWhenPrev_val]
   repeat' split
   all_goals grind [St.puView, St.poView, pushView, popViewP, popViewC, upd, holdsPush, holdsPopP, holdsPopC, startPush', startPop']
 
 theorem stepP_ring_tryLock (s : St) (i : Nat) (op : Option POp) (v rest) (hpc : s.pp i = .tryLock v rest)
-    (h : TInv s) (hw : NoWrap s.ring) : RingInv (stepP s i op).ring (stepP s i op).puView (stepP s i op).poView := by
+    (h : TInv s) : RingInv (stepP s i op).ring (stepP s i op).puView (stepP s i op).poView := by
   obtain ⟨⟨hv, h1, h2, h3, h4, h5, h6, h7, h8, h9, h10, h11⟩, hring⟩ := h
   have hp : s.v.plock = true := by rw [hv]; rfl
-  simp only [stepP, hpc, startP, St.endSample, St.beginSample, St.setP, hp, if_true, trackCloneInc_val, trackDropDec_val, trackCloseWhenPrev_val]
+  have hq : s.v.pipe = false := by rw [hv]; rfl
+  simp only [stepP, hpc, startP, St.endSample, St.beginSample, St.setP, hp, hq, Bool.false_eq_true, if_false, if_true, trackCloneInc_val, trackDropDec_val, trackCloseWhenPrev_val]
   repeat' split
   all_goals grind [St.puView, St.poView, pushView, popViewP, popViewC, upd, holdsPush, holdsPopP, holdsPopC, startPush', startPop']
 
 theorem stepP_ring_pop (s : St) (i : Nat) (op : Option POp) (v rest p) (hpc : s.pp i = .pop v rest p)
-    (h : TInv s) (hw : NoWrap s.ring) : RingInv (stepP s i op).ring (stepP s i op).puView (stepP s i op).poView := by
+    (h : TInv s) : RingInv (stepP s i op).ring (stepP s i op).puView (stepP s i op).poView := by
   obtain ⟨⟨hv, h1, h2, h3, h4, h5, h6, h7, h8, h9, h10, h11⟩, hring⟩ := h
   have hp : s.v.plock = true := by rw [hv]; rfl
+  have hq : s.v.pipe = false := by rw [hv]; rfl
   have hpl : s.plock = some i := (h1 i).1 (by simp [hpc, holdsPush])
   have hpo : s.poplock = some (.prod i) := (h2 i).1 (by simp [hpc, holdsPopP])
   have hview : s.poView = some p := by simp [St.poView, hpo, hpc, popViewP]
   have hview2 : s.puView = none := by simp [St.puView, hpl, hpc, pushView]
   rw [hview, hview2] at hring
-  obtain ⟨k1, k2, k3⟩ := popStep_inv hring hw
-  simp only [stepP, hpc, startP, St.endSample, St.beginSample, St.setP, hp, if_true, trackCloneInc_val, trackDropDec_val, trackCloseWhenPrev_val]
+  obtain ⟨k1, k2, k3⟩ := popStep_inv hring
+  simp only [stepP, hpc, startP, St.endSample, St.beginSample, St.setP, hp, hq, Bool.false_eq_true, if_false, if_true, trackCloneInc_val, trackDropDec_val, trackCloseWhenPrev_val]
   repeat' split
   all_goals grind [St.puView, St.poView, pushView, popViewP, popViewC, upd, holdsPush, holdsPopP, holdsPopC, startPush', startPop']
 
 theorem stepP_ring_clone (s : St) (i : Nat) (op : Option POp) (j') (hpc : s.pp i = .clone j')
-    (h : TInv s) (hw : NoWrap s.ring) : RingInv (stepP s i op).ring (stepP s i op).puView (stepP s i op).poView := by
+    (h : TInv s) : RingInv (stepP s i op).ring (stepP s i op).puView (stepP s i op).poView := by
   have hL := h.l
   have hring := h.ring
   have hn1 : holdsPush (s.pp i) = false := by simp [hpc, holdsPush]
@@ -612,7 +638,7 @@ theorem stepP_ring_clone (s : St) (i : Nat) (op : Option POp) (j') (hpc : s.pp i
   rw [a.1, a.2, b.1, b.2]; exact hring
 
 theorem stepP_ring_fetchSub (s : St) (i : Nat) (op : Option POp)  (hpc : s.pp i = .fetchSub )
-    (h : TInv s) (hw : NoWrap s.ring) : RingInv (stepP s i op).ring (stepP s i op).puView (stepP s i op).poView := by
+    (h : TInv s) : RingInv (stepP s i op).ring (stepP s i op).puView (stepP s i op).poView := by
   have hL := h.l
   have hring := h.ring
   have hn1 : holdsPush (s.pp i) = false := by simp [hpc, holdsPush]
@@ -625,23 +651,25 @@ theorem stepP_ring_fetchSub (s : St) (i : Nat) (op : Option POp)  (hpc : s.pp i 
   · rw [b.1, b.2]; exact hring
 
 theorem stepP_ring_stClosed (s : St) (i : Nat) (op : Option POp)  (hpc : s.pp i = .stClosed )
-    (h : TInv s) (hw : NoWrap s.ring) : RingInv (stepP s i op).ring (stepP s i op).puView (stepP s i op).poView := by
+    (h : TInv s) : RingInv (stepP s i op).ring (stepP s i op).puView (stepP s i op).poView := by
   obtain ⟨⟨hv, h1, h2, h3, h4, h5, h6, h7, h8, h9, h10, h11⟩, hring⟩ := h
   have hp : s.v.plock = true := by rw [hv]; rfl
-  simp only [stepP, hpc, startP, St.endSample, St.beginSample, St.setP, hp, if_true, trackCloneInc_val, trackDropDec_val, trackCloseWhenPrev_val]
+  have hq : s.v.pipe = false := by rw [hv]; rfl
+  simp only [stepP, hpc, startP, St.endSample, St.beginSample, St.setP, hp, hq, Bool.false_eq_true, if_false, if_true, trackCloneInc_val, trackDropDec_val, trackCloseWhenPrev_val]
   repeat' split
   all_goals grind [St.puView, St.poView, pushView, popViewP, popViewC, upd, holdsPush, holdsPopP, holdsPopC, startPush', startPop']
 
 theorem stepP_ring_ntfW (s : St) (i : Nat) (op : Option POp)  (hpc : s.pp i = .ntfW )
-    (h : TInv s) (hw : NoWrap s.ring) : RingInv (stepP s i op).ring (stepP s i op).puView (stepP s i op).poView := by
+    (h : TInv s) : RingInv (stepP s i op).ring (stepP s i op).puView (stepP s i op).poView := by
   obtain ⟨⟨hv, h1, h2, h3, h4, h5, h6, h7, h8, h9, h10, h11⟩, hring⟩ := h
   have hp : s.v.plock = true := by rw [hv]; rfl
-  simp only [stepP, hpc, startP, St.endSample, St.beginSample, St.setP, hp, if_true, trackCloneInc_val, trackDropDec_val, trackCloseWhenPrev_val]
+  have hq : s.v.pipe = false := by rw [hv]; rfl
+  simp only [stepP, hpc, startP, St.endSample, St.beginSample, St.setP, hp, hq, Bool.false_eq_true, if_false, if_true, trackCloneInc_val, trackDropDec_val, trackCloseWhenPrev_val]
   repeat' split
   all_goals grind [St.puView, St.poView, pushView, popViewP, popViewC, upd, holdsPush, holdsPopP, holdsPopC, startPush', startPop']
 
 theorem stepC_ring_idle (s : St) (start : Bool)  (hpc : s.cp = .idle )
-    (h : TInv s) (hw : NoWrap s.ring) : RingInv (stepC s start).ring (stepC s start).puView (stepC s start).poView := by
+    (h : TInv s) : RingInv (stepC s start).ring (stepC s start).puView (stepC s start).poView := by
   obtain ⟨⟨hv, h1, h2, h3, h4, h5, h6, h7, h8, h9, h10, h11⟩, hring⟩ := h
   have hr : s.v.rfix = true := by rw [hv]; rfl
   simp only [stepC, hpc, St.loopTop, St.retC, hr, if_true]
@@ -649,7 +677,7 @@ theorem stepC_ring_idle (s : St) (start : Bool)  (hpc : s.cp = .idle )
   all_goals grind [St.puView, St.poView, pushView, popViewP, popViewC, upd, holdsPush, holdsPopP, holdsPopC, startPush', startPop']
 
 theorem stepC_ring_mkNtf (s : St) (start : Bool)  (hpc : s.cp = .mkNtf )
-    (h : TInv s) (hw : NoWrap s.ring) : RingInv (stepC s start).ring (stepC s start).puView (stepC s start).poView := by
+    (h : TInv s) : RingInv (stepC s start).ring (stepC s start).puView (stepC s start).poView := by
   obtain ⟨⟨hv, h1, h2, h3, h4, h5, h6, h7, h8, h9, h10, h11⟩, hring⟩ := h
   have hr : s.v.rfix = true := by rw [hv]; rfl
   simp only [stepC, hpc, St.loopTop, St.retC, hr, if_true]
@@ -657,7 +685,7 @@ theorem stepC_ring_mkNtf (s : St) (start : Bool)  (hpc : s.cp = .mkNtf )
   all_goals grind [St.puView, St.poView, pushView, popViewP, popViewC, upd, holdsPush, holdsPopP, holdsPopC, startPush', startPop']
 
 theorem stepC_ring_ldEnded (s : St) (start : Bool) (g) (hpc : s.cp = .ldEnded g)
-    (h : TInv s) (hw : NoWrap s.ring) : RingInv (stepC s start).ring (stepC s start).puView (stepC s start).poView := by
+    (h : TInv s) : RingInv (stepC s start).ring (stepC s start).puView (stepC s start).poView := by
   obtain ⟨⟨hv, h1, h2, h3, h4, h5, h6, h7, h8, h9, h10, h11⟩, hring⟩ := h
   have hr : s.v.rfix = true := by rw [hv]; rfl
   simp only [stepC, hpc, St.loopTop, St.retC, hr, if_true]
@@ -665,7 +693,7 @@ theorem stepC_ring_ldEnded (s : St) (start : Bool) (g) (hpc : s.cp = .ldEnded g)
   all_goals grind [St.puView, St.poView, pushView, popViewP, popViewC, upd, holdsPush, holdsPopP, holdsPopC, startPush', startPop']
 
 theorem stepC_ring_lock (s : St) (start : Bool) (g) (hpc : s.cp = .lock g)
-    (h : TInv s) (hw : NoWrap s.ring) : RingInv (stepC s start).ring (stepC s start).puView (stepC s start).poView := by
+    (h : TInv s) : RingInv (stepC s start).ring (stepC s start).puView (stepC s start).poView := by
   obtain ⟨⟨hv, h1, h2, h3, h4, h5, h6, h7, h8, h9, h10, h11⟩, hring⟩ := h
   have hr : s.v.rfix = true := by rw [hv]; rfl
   simp only [stepC, hpc, St.loopTop, St.retC, hr, if_true]
@@ -673,7 +701,7 @@ theorem stepC_ring_lock (s : St) (start : Bool) (g) (hpc : s.cp = .lock g)
   all_goals grind [St.puView, St.poView, pushView, popViewP, popViewC, upd, holdsPush, holdsPopP, holdsPopC, startPush', startPop']
 
 theorem stepC_ring_ldClosed1 (s : St) (start : Bool) (g) (hpc : s.cp = .ldClosed1 g)
-    (h : TInv s) (hw : NoWrap s.ring) : RingInv (stepC s start).ring (stepC s start).puView (stepC s start).poView := by
+    (h : TInv s) : RingInv (stepC s start).ring (stepC s start).puView (stepC s start).poView := by
   obtain ⟨⟨hv, h1, h2, h3, h4, h5, h6, h7, h8, h9, h10, h11⟩, hring⟩ := h
   have hr : s.v.rfix = true := by rw [hv]; rfl
   simp only [stepC, hpc, St.loopTop, St.retC, hr, if_true]
@@ -681,19 +709,19 @@ theorem stepC_ring_ldClosed1 (s : St) (start : Bool) (g) (hpc : s.cp = .ldClosed
   all_goals grind [St.puView, St.poView, pushView, popViewP, popViewC, upd, holdsPush, holdsPopP, holdsPopC, startPush', startPop']
 
 theorem stepC_ring_pop (s : St) (start : Bool) (g cl p) (hpc : s.cp = .pop g cl p)
-    (h : TInv s) (hw : NoWrap s.ring) : RingInv (stepC s start).ring (stepC s start).puView (stepC s start).poView := by
+    (h : TInv s) : RingInv (stepC s start).ring (stepC s start).puView (stepC s start).poView := by
   obtain ⟨⟨hv, h1, h2, h3, h4, h5, h6, h7, h8, h9, h10, h11⟩, hring⟩ := h
   have hr : s.v.rfix = true := by rw [hv]; rfl
   have hpo : s.poplock = some .cons := h3.1 (by simp [hpc, holdsPopC])
   have hview : s.poView = some p := by simp [St.poView, hpo, hpc, popViewC]
   rw [hview] at hring
-  obtain ⟨k1, k2, k3⟩ := popStep_inv hring hw
+  obtain ⟨k1, k2, k3⟩ := popStep_inv hring
   simp only [stepC, hpc, St.loopTop, St.retC, hr, if_true]
   repeat' split
   all_goals grind [St.puView, St.poView, pushView, popViewP, popViewC, upd, holdsPush, holdsPopP, holdsPopC, startPush', startPop']
 
 theorem stepC_ring_ldClosedOld (s : St) (start : Bool)  (hpc : s.cp = .ldClosedOld )
-    (h : TInv s) (hw : NoWrap s.ring) : RingInv (stepC s start).ring (stepC s start).puView (stepC s start).poView := by
+    (h : TInv s) : RingInv (stepC s start).ring (stepC s start).puView (stepC s start).poView := by
   obtain ⟨⟨hv, h1, h2, h3, h4, h5, h6, h7, h8, h9, h10, h11⟩, hring⟩ := h
   have hr : s.v.rfix = true := by rw [hv]; rfl
   simp only [stepC, hpc, St.loopTop, St.retC, hr, if_true]
@@ -701,7 +729,7 @@ theorem stepC_ring_ldClosedOld (s : St) (start : Bool)  (hpc : s.cp = .ldClosedO
   all_goals grind [St.puView, St.poView, pushView, popViewP, popViewC, upd, holdsPush, holdsPopP, holdsPopC, startPush', startPop']
 
 theorem stepC_ring_stEnded (s : St) (start : Bool)  (hpc : s.cp = .stEnded )
-    (h : TInv s) (hw : NoWrap s.ring) : RingInv (stepC s start).ring (stepC s start).puView (stepC s start).poView := by
+    (h : TInv s) : RingInv (stepC s start).ring (stepC s start).puView (stepC s start).poView := by
   obtain ⟨⟨hv, h1, h2, h3, h4, h5, h6, h7, h8, h9, h10, h11⟩, hring⟩ := h
   have hr : s.v.rfix = true := by rw [hv]; rfl
   simp only [stepC, hpc, St.loopTop, St.retC, hr, if_true]
@@ -709,7 +737,7 @@ theorem stepC_ring_stEnded (s : St) (start : Bool)  (hpc : s.cp = .stEnded )
   all_goals grind [St.puView, St.poView, pushView, popViewP, popViewC, upd, holdsPush, holdsPopP, holdsPopC, startPush', startPop']
 
 theorem stepC_ring_await1 (s : St) (start : Bool) (g) (hpc : s.cp = .await1 g)
-    (h : TInv s) (hw : NoWrap s.ring) : RingInv (stepC s start).ring (stepC s start).puView (stepC s start).poView := by
+    (h : TInv s) : RingInv (stepC s start).ring (stepC s start).puView (stepC s start).poView := by
   obtain ⟨⟨hv, h1, h2, h3, h4, h5, h6, h7, h8, h9, h10, h11⟩, hring⟩ := h
   have hr : s.v.rfix = true := by rw [hv]; rfl
   simp only [stepC, hpc, St.loopTop, St.retC, hr, if_true]
@@ -717,7 +745,7 @@ theorem stepC_ring_await1 (s : St) (start : Bool) (g) (hpc : s.cp = .await1 g)
   all_goals grind [St.puView, St.poView, pushView, popViewP, popViewC, upd, holdsPush, holdsPopP, holdsPopC, startPush', startPop']
 
 theorem stepC_ring_await2 (s : St) (start : Bool)  (hpc : s.cp = .await2 )
-    (h : TInv s) (hw : NoWrap s.ring) : RingInv (stepC s start).ring (stepC s start).puView (stepC s start).poView := by
+    (h : TInv s) : RingInv (stepC s start).ring (stepC s start).puView (stepC s start).poView := by
   obtain ⟨⟨hv, h1, h2, h3, h4, h5, h6, h7, h8, h9, h10, h11⟩, hring⟩ := h
   have hr : s.v.rfix = true := by rw [hv]; rfl
   simp only [stepC, hpc, St.loopTop, St.retC, hr, if_true]
@@ -725,7 +753,7 @@ theorem stepC_ring_await2 (s : St) (start : Bool)  (hpc : s.cp = .await2 )
   all_goals grind [St.puView, St.poView, pushView, popViewP, popViewC, upd, holdsPush, holdsPopP, holdsPopC, startPush', startPop']
 
 theorem stepC_ring_ldClosed2 (s : St) (start : Bool)  (hpc : s.cp = .ldClosed2 )
-    (h : TInv s) (hw : NoWrap s.ring) : RingInv (stepC s start).ring (stepC s start).puView (stepC s start).poView := by
+    (h : TInv s) : RingInv (stepC s start).ring (stepC s start).puView (stepC s start).poView := by
   obtain ⟨⟨hv, h1, h2, h3, h4, h5, h6, h7, h8, h9, h10, h11⟩, hring⟩ := h
   have hr : s.v.rfix = true := by rw [hv]; rfl
   simp only [stepC, hpc, St.loopTop, St.retC, hr, if_true]
@@ -733,7 +761,7 @@ theorem stepC_ring_ldClosed2 (s : St) (start : Bool)  (hpc : s.cp = .ldClosed2 )
   all_goals grind [St.puView, St.poView, pushView, popViewP, popViewC, upd, holdsPush, holdsPopP, holdsPopC, startPush', startPop']
 
 theorem stepC_ring_isEmpty (s : St) (start : Bool)  (hpc : s.cp = .isEmpty )
-    (h : TInv s) (hw : NoWrap s.ring) : RingInv (stepC s start).ring (stepC s start).puView (stepC s start).poView := by
+    (h : TInv s) : RingInv (stepC s start).ring (stepC s start).puView (stepC s start).poView := by
   obtain ⟨⟨hv, h1, h2, h3, h4, h5, h6, h7, h8, h9, h10, h11⟩, hring⟩ := h
   have hr : s.v.rfix = true := by rw [hv]; rfl
   simp only [stepC, hpc, St.loopTop, St.retC, hr, if_true]
@@ -741,7 +769,7 @@ theorem stepC_ring_isEmpty (s : St) (start : Bool)  (hpc : s.cp = .isEmpty )
   all_goals grind [St.puView, St.poView, pushView, popViewP, popViewC, upd, holdsPush, holdsPopP, holdsPopC, startPush', startPop']
 
 theorem stepC_ring_stEnded2 (s : St) (start : Bool)  (hpc : s.cp = .stEnded2 )
-    (h : TInv s) (hw : NoWrap s.ring) : RingInv (stepC s start).ring (stepC s start).puView (stepC s start).poView := by
+    (h : TInv s) : RingInv (stepC s start).ring (stepC s start).puView (stepC s start).poView := by
   obtain ⟨⟨hv, h1, h2, h3, h4, h5, h6, h7, h8, h9, h10, h11⟩, hring⟩ := h
   have hr : s.v.rfix = true := by rw [hv]; rfl
   simp only [stepC, hpc, St.loopTop, St.retC, hr, if_true]
@@ -755,48 +783,73 @@ theorem stepS_ring (s : St) (start : Bool) (h : TInv s) :
   repeat' split
   all_goals exact hring
 
-theorem stepP_ring (s : St) (i : Nat) (op : Option POp) (h : TInv s) (hw : NoWrap s.ring) : RingInv (stepP s i op).ring (stepP s i op).puView (stepP s i op).poView := by
+theorem stepP_ring (s : St) (i : Nat) (op : Option POp) (h : TInv s) : RingInv (stepP s i op).ring (stepP s i op).puView (stepP s i op).poView := by
   cases hpc : s.pp i with
-  | none  => exact stepP_ring_none s i op  hpc h hw
-  | reserved  => exact stepP_ring_reserved s i op  hpc h hw
-  | gone  => exact stepP_ring_gone s i op  hpc h hw
-  | idle  => exact stepP_ring_idle s i op  hpc h hw
-  | acq k v rest => exact stepP_ring_acq s i op k v rest hpc h hw
-  | chk k v rest => exact stepP_ring_chk s i op k v rest hpc h hw
-  | push c v rest p => exact stepP_ring_push s i op c v rest p hpc h hw
-  | ntf c rest => exact stepP_ring_ntf s i op c rest hpc h hw
-  | tryLock v rest => exact stepP_ring_tryLock s i op v rest hpc h hw
-  | pop v rest p => exact stepP_ring_pop s i op v rest p hpc h hw
-  | clone j' => exact stepP_ring_clone s i op j' hpc h hw
-  | fetchSub  => exact stepP_ring_fetchSub s i op  hpc h hw
-  | stClosed  => exact stepP_ring_stClosed s i op  hpc h hw
-  | ntfW  => exact stepP_ring_ntfW s i op  hpc h hw
+  | none  => exact stepP_ring_none s i op  hpc h
+  | reserved  => exact stepP_ring_reserved s i op  hpc h
+  | gone  => exact stepP_ring_gone s i op  hpc h
+  | idle  => exact stepP_ring_idle s i op  hpc h
+  | acq k v rest => exact stepP_ring_acq s i op k v rest hpc h
+  | chk k v rest => exact stepP_ring_chk s i op k v rest hpc h
+  | push c v rest p => exact stepP_ring_push s i op c v rest p hpc h
+  | ntf c rest => exact stepP_ring_ntf s i op c rest hpc h
+  | tryLock v rest => exact stepP_ring_tryLock s i op v rest hpc h
+  | pop v rest p => exact stepP_ring_pop s i op v rest p hpc h
+  | clone j' => exact stepP_ring_clone s i op j' hpc h
+  | fetchSub  => exact stepP_ring_fetchSub s i op  hpc h
+  | stClosed  => exact stepP_ring_stClosed s i op  hpc h
+  | ntfW  => exact stepP_ring_ntfW s i op  hpc h
 
-theorem stepC_ring (s : St) (start : Bool) (h : TInv s) (hw : NoWrap s.ring) : RingInv (stepC s start).ring (stepC s start).puView (stepC s start).poView := by
+theorem stepC_ring (s : St) (start : Bool) (h : TInv s) : RingInv (stepC s start).ring (stepC s start).puView (stepC s start).poView := by
   cases hpc : s.cp with
-  | idle  => exact stepC_ring_idle s start  hpc h hw
-  | mkNtf  => exact stepC_ring_mkNtf s start  hpc h hw
-  | ldEnded g => exact stepC_ring_ldEnded s start g hpc h hw
-  | lock g => exact stepC_ring_lock s start g hpc h hw
-  | ldClosed1 g => exact stepC_ring_ldClosed1 s start g hpc h hw
-  | pop g cl p => exact stepC_ring_pop s start g cl p hpc h hw
-  | ldClosedOld  => exact stepC_ring_ldClosedOld s start  hpc h hw
-  | stEnded  => exact stepC_ring_stEnded s start  hpc h hw
-  | await1 g => exact stepC_ring_await1 s start g hpc h hw
-  | await2  => exact stepC_ring_await2 s start  hpc h hw
-  | ldClosed2  => exact stepC_ring_ldClosed2 s start  hpc h hw
-  | isEmpty  => exact stepC_ring_isEmpty s start  hpc h hw
-  | stEnded2  => exact stepC_ring_stEnded2 s start  hpc h hw
+  | idle  => exact stepC_ring_idle s start  hpc h
+  | mkNtf  => exact stepC_ring_mkNtf s start  hpc h
+  | ldEnded g => exact stepC_ring_ldEnded s start g hpc h
+  | lock g => exact stepC_ring_lock s start g hpc h
+  | ldClosed1 g => exact stepC_ring_ldClosed1 s start g hpc h
+  | pop g cl p => exact stepC_ring_pop s start g cl p hpc h
+  | ldClosedOld  => exact stepC_ring_ldClosedOld s start  hpc h
+  | stEnded  => exact stepC_ring_stEnded s start  hpc h
+  | await1 g => exact stepC_ring_await1 s start g hpc h
+  | await2  => exact stepC_ring_await2 s start  hpc h
+  | ldClosed2  => exact stepC_ring_ldClosed2 s start  hpc h
+  | isEmpty  => exact stepC_ring_isEmpty s start  hpc h
+  | stEnded2  => exact stepC_ring_stEnded2 s start  hpc h
 
-theorem step_TInv (s : St) (l : Label) (h : TInv s) (hw : NoWrap s.ring) : TInv (step s l) := by
+theorem step_TInv (s : St) (l : Label) (h : TInv s) : TInv (step s l) := by
   refine ⟨step_LInv s l h.l, ?_⟩
   cases l with
-  | prod i op => exact stepP_ring s i op h hw
-  | cons st => exact stepC_ring s st h hw
+  | prod i op => exact stepP_ring s i op h
+  | cons st => exact stepC_ring s st h
   | stop st => exact stepS_ring s st h
+  | rcv op => have hq : s.v.pipe = false := by rw [h.l.var]; rfl
+              simpa [step, stepR, hq] using h.ring
 
-theorem TInv.init (cap W : Nat) (h0 : 0 < cap) (h1 : cap < W) : TInv (St.init Variant.cur cap W 0) :=
-  ⟨LInv.init cap W, RingInv.init cap W h0 h1⟩
+theorem TInv.init (cap k : Nat) (h0 : 0 < cap) (h1 : cap < 2 ^ k) : TInv (St.init Variant.cur cap (2 ^ k) 0) :=
+  ⟨LInv.init cap (2 ^ k), RingInv.init cap k h0 h1⟩
+
+/-- a producer about to write a slot is the only writer, no producer is reading, and the consumer,
+if it is about to read, addresses a different slot -/
+theorem no_slot_race_of_inv (s : St) (hT : TInv s) (i tl v : Nat) (c : Ctx) (rest : List Nat)
+    (hw : s.pp i = .push c v rest (.write tl)) :
+    (∀ j c' v' rest' tl', s.pp j = .push c' v' rest' (.write tl') → j = i) ∧
+    (∀ j v' rest' hl, s.pp j ≠ .pop v' rest' (.read hl)) ∧
+    (∀ g cl hl, s.cp = .pop g cl (.read hl) → s.ring.idx tl ≠ s.ring.idx hl) := by
+  have hpl : s.plock = some i := (hT.l.plockIff i).1 (by simp [hw, holdsPush])
+  refine ⟨fun j c' v' rest' tl' hj => ?_, fun j v' rest' hl hj => ?_, fun g cl hl hc => ?_⟩
+  · have hj' : s.plock = some j := (hT.l.plockIff j).1 (by simp [hj, holdsPush])
+    rw [hpl] at hj'; exact (Option.some.inj hj').symm
+  · have hj' : s.plock = some j := (hT.l.plockIff j).1 (by simp [hj, holdsPush])
+    rw [hpl] at hj'
+    have : i = j := Option.some.inj hj'
+    subst this
+    rw [hw] at hj; exact PPc.noConfusion hj
+  · have hpo : s.poplock = some .cons := hT.l.poplockC.1 (by simp [hc, holdsPopC])
+    have hr := hT.ring
+    have e1 : s.puView = some (.write tl, (i, v)) := by simp [St.puView, hpl, hw, pushView]
+    have e2 : s.poView = some (.read hl) := by simp [St.poView, hpo, hc, popViewC]
+    rw [e1, e2] at hr
+    exact write_read_disjoint hr
 
 /-! ### frame: capacity / word never change, `tcount` never decreases; runs -/
 
@@ -835,6 +888,17 @@ theorem step_frame (s : St) (l : Label) :
     simp only [step, stepS]
     repeat' split
     all_goals simp
+  | rcv op =>
+    cases hpc : s.rp with
+    | pop cl p =>
+      have := popStep_frame s.ring p
+      simp only [step, stepR, hpc]
+      repeat' split
+      all_goals grind
+    | _ =>
+      simp only [step, stepR, hpc]
+      repeat' split
+      all_goals simp
 
 theorem run_frame (s : St) (ls : List Label) :
     (run s ls).ring.cap = s.ring.cap ∧ (run s ls).ring.W = s.ring.W ∧ s.ring.tcount ≤ (run s ls).ring.tcount := by
@@ -846,22 +910,15 @@ theorem run_frame (s : St) (ls : List Label) :
     simp only [run, List.foldl_cons] at h2 ⊢
     exact ⟨h2.1.trans h1.1, h2.2.1.trans h1.2.1, Nat.le_trans h1.2.2.1 h2.2.2⟩
 
-/-- generic induction principle: an invariant preserved by every step under `NoWrap` holds after
-every run whose final state satisfies `NoWrap` -/
-theorem run_induct (P : St → Prop) (hstep : ∀ s l, P s → NoWrap s.ring → P (step s l))
-    (s : St) (ls : List Label) (h : P s) (hw : NoWrap (run s ls).ring) : P (run s ls) := by
+/-- generic induction principle: an invariant preserved by every step holds after every run -/
+theorem run_induct (P : St → Prop) (hstep : ∀ s l, P s → P (step s l))
+    (s : St) (ls : List Label) (h : P s) : P (run s ls) := by
   induction ls generalizing s with
   | nil => exact h
-  | cons l ls ih =>
-    simp only [run, List.foldl_cons] at hw ⊢
-    have hf := run_frame (step s l) ls
-    have hf1 := step_frame s l
-    have hw1 : NoWrap (step s l).ring := NoWrap.of_le hf.1 hf.2.1 hf.2.2 hw
-    have hw0 : NoWrap s.ring := NoWrap.of_le hf1.1 hf1.2.1 hf1.2.2.1 hw1
-    exact ih (step s l) (hstep s l h hw0) hw
+  | cons l ls ih => exact ih (step s l) (hstep s l h)
 
-theorem run_TInv (s : St) (ls : List Label) (h : TInv s) (hw : NoWrap (run s ls).ring) : TInv (run s ls) :=
-  run_induct TInv step_TInv s ls h hw
+theorem run_TInv (s : St) (ls : List Label) (h : TInv s) : TInv (run s ls) :=
+  run_induct TInv step_TInv s ls h
 
 /-! ### ghost logs: what was received is a subsequence of what was popped, which is a prefix of what
 was written, which is a subsequence of what the producers submitted (in lock-acquisition order) -/
@@ -889,8 +946,37 @@ theorem sub_snoc {α} {A B : List α} (x : α) (h : List.Sublist A B) : List.Sub
 theorem sub_right {α} {A B : List α} (x : α) (h : List.Sublist A B) : List.Sublist A (B ++ [x]) :=
   h.trans (List.sublist_append_left B [x])
 
-/-- what `recv` returned is a subsequence of what `pop` handed out -/
-def GInv (s : St) : Prop := List.Sublist s.recvd s.ring.outs
+/-- `c` is an interleaving (shuffle) of `a` and `b`: every element of `c` goes to exactly one of
+`a`, `b`, keeping the order (snoc form, matching how the logs grow) -/
+inductive Interleave {α : Type} : List α → List α → List α → Prop
+  | nil : Interleave [] [] []
+  | left {a b c : List α} (x : α) : Interleave a b c → Interleave (a ++ [x]) b (c ++ [x])
+  | right {a b c : List α} (x : α) : Interleave a b c → Interleave a (b ++ [x]) (c ++ [x])
+
+theorem Interleave.sub_left {α} {a b c : List α} (h : Interleave a b c) : List.Sublist a c := by
+  induction h with
+  | nil => exact List.Sublist.refl _
+  | left x _ ih => exact sub_snoc x ih
+  | right x _ ih => exact sub_right x ih
+theorem Interleave.sub_right' {α} {a b c : List α} (h : Interleave a b c) : List.Sublist b c := by
+  induction h with
+  | nil => exact List.Sublist.refl _
+  | left x _ ih => exact sub_right x ih
+  | right x _ ih => exact sub_snoc x ih
+theorem Interleave.length {α} {a b c : List α} (h : Interleave a b c) : c.length = a.length + b.length := by
+  induction h with
+  | nil => rfl
+  | left x _ ih => simp [ih]; omega
+  | right x _ ih => simp [ih]; omega
+theorem Interleave.mem {α} {a b c : List α} (h : Interleave a b c) (x : α) : x ∈ c ↔ x ∈ a ∨ x ∈ b := by
+  induction h with
+  | nil => simp
+  | left y _ ih => simp [ih]; grind
+  | right y _ ih => simp [ih]; grind
+
+/-- every value handed out by `pop` went either to the consumer (`recvd`) or was discarded by a
+drop-oldest producer (`droppedOld`) — exactly one of the two, order kept -/
+def GInv (s : St) : Prop := Interleave s.recvd s.droppedOld s.ring.outs
 
 theorem step_GInv (s : St) (l : Label) (h : GInv s) : GInv (step s l) := by
   unfold GInv at *
@@ -906,7 +992,7 @@ theorem step_GInv (s : St) (l : Label) (h : GInv s) : GInv (step s l) := by
       have := popStep_outs s.ring p
       simp only [step, stepP, hpc, St.setP]
       repeat' split
-      all_goals grind [sub_right]
+      all_goals grind [Interleave.right]
     | _ =>
       simp only [step, stepP, hpc, startP, St.endSample, St.beginSample, St.setP]
       repeat' split
@@ -917,7 +1003,7 @@ theorem step_GInv (s : St) (l : Label) (h : GInv s) : GInv (step s l) := by
       have := popStep_outs s.ring p
       simp only [step, stepC, hpc, St.loopTop, St.retC]
       repeat' split
-      all_goals grind [sub_snoc]
+      all_goals grind [Interleave.left]
     | _ =>
       simp only [step, stepC, hpc, St.loopTop, St.retC]
       repeat' split
@@ -926,9 +1012,20 @@ theorem step_GInv (s : St) (l : Label) (h : GInv s) : GInv (step s l) := by
     simp only [step, stepS]
     repeat' split
     all_goals exact h
+  | rcv op =>
+    cases hpc : s.rp with
+    | pop cl p =>
+      have := popStep_outs s.ring p
+      simp only [step, stepR, hpc]
+      repeat' split
+      all_goals grind [Interleave.left]
+    | _ =>
+      simp only [step, stepR, hpc]
+      repeat' split
+      all_goals exact h
 
 theorem GInv.init (v : Variant) (cap W : Nat) : GInv (St.init v cap W 0) := by
-  simp [GInv, St.init, Ring.init]
+  simp only [GInv, St.init, Ring.init]; exact Interleave.nil
 
 theorem run_GInv (s : St) (ls : List Label) (h : GInv s) : GInv (run s ls) := by
   induction ls generalizing s with
@@ -947,6 +1044,7 @@ structure EInv (s : St) : Prop where
   ended : s.ended = true → s.stopCalled = true ∨ Drained s
   eos : CRes.eos ∈ s.cres → s.stopCalled = true ∨ Drained s
   noOld : s.cp ≠ .ldClosedOld
+  retNoneCl : ∀ g, s.cp = .pop g true .retNone → Drained s
 
 /-- once the source is closed nobody holds (or can take) the producer lock -/
 theorem closed_no_holder (s : St) (hL : LInv s) (hc : s.closed = true) (i : Nat) : hasHandle (s.pp i) = false := by
@@ -955,11 +1053,11 @@ theorem closed_no_holder (s : St) (hL : LInv s) (hc : s.closed = true) (i : Nat)
   | false => rfl
   | true => have := (hL.liveIff i).2 h; simp_all
 
-theorem popStep_le {r pu p} (h : RingInv r pu (some p)) (hw : NoWrap r) :
+theorem popStep_le {r pu p} (h : RingInv r pu (some p)) :
     (popStep r p).1.hcount ≤ (popStep r p).1.tcount := by
-  obtain ⟨k1, k2, k3⟩ := popStep_inv h hw
+  obtain ⟨k1, k2, k3⟩ := popStep_inv h
   cases hout : (popStep r p).2 with
-  | cont p' => exact (k1 p' hout).le1
+  | cont p' => exact (k1 p' hout).1.le1
   | empty => exact (k2 hout).1.le1
   | done x => exact (k3 x hout).1.le1
 
@@ -971,108 +1069,118 @@ theorem isEmpty_drained (s : St) (hT : TInv s) (he : s.ring.isEmpty = true) : s.
 
 theorem stepP_EInv_none (s : St) (i : Nat) (op : Option POp)  (hpc : s.pp i = .none )
     (hT : TInv s) (h : EInv s) : EInv (stepP s i op) := by
-  obtain ⟨e1, e2, e3, e4, e5, e6, e7⟩ := h
+  obtain ⟨e1, e2, e3, e4, e5, e6, e7, e8⟩ := h
   have hp : s.v.plock = true := by rw [hT.l.var]; rfl
+  have hq : s.v.pipe = false := by rw [hT.l.var]; rfl
   have hnh := closed_no_holder s hT.l
-  simp only [stepP, hpc, startP, St.endSample, St.beginSample, St.setP, hp, if_true]
+  simp only [stepP, hpc, startP, St.endSample, St.beginSample, St.setP, hp, hq, Bool.false_eq_true, if_false, if_true]
   repeat' split
   all_goals first
-    | exact ⟨e1, e2, e3, e4, e5, e6, e7⟩
-    | (refine ⟨?_, ?_, ?_, ?_, ?_, ?_, ?_⟩ <;> grind [Drained, upd, holdsPush, holdsPopP, holdsPopC, hasHandle, PopperOk, PusherOk])
+    | exact ⟨e1, e2, e3, e4, e5, e6, e7, e8⟩
+    | (refine ⟨?_, ?_, ?_, ?_, ?_, ?_, ?_, ?_⟩ <;> grind [Drained, upd, holdsPush, holdsPopP, holdsPopC, hasHandle, PopperOk, PusherOk])
 
 theorem stepP_EInv_reserved (s : St) (i : Nat) (op : Option POp)  (hpc : s.pp i = .reserved )
     (hT : TInv s) (h : EInv s) : EInv (stepP s i op) := by
-  obtain ⟨e1, e2, e3, e4, e5, e6, e7⟩ := h
+  obtain ⟨e1, e2, e3, e4, e5, e6, e7, e8⟩ := h
   have hp : s.v.plock = true := by rw [hT.l.var]; rfl
+  have hq : s.v.pipe = false := by rw [hT.l.var]; rfl
   have hnh := closed_no_holder s hT.l
-  simp only [stepP, hpc, startP, St.endSample, St.beginSample, St.setP, hp, if_true]
+  simp only [stepP, hpc, startP, St.endSample, St.beginSample, St.setP, hp, hq, Bool.false_eq_true, if_false, if_true]
   repeat' split
   all_goals first
-    | exact ⟨e1, e2, e3, e4, e5, e6, e7⟩
-    | (refine ⟨?_, ?_, ?_, ?_, ?_, ?_, ?_⟩ <;> grind [Drained, upd, holdsPush, holdsPopP, holdsPopC, hasHandle, PopperOk, PusherOk])
+    | exact ⟨e1, e2, e3, e4, e5, e6, e7, e8⟩
+    | (refine ⟨?_, ?_, ?_, ?_, ?_, ?_, ?_, ?_⟩ <;> grind [Drained, upd, holdsPush, holdsPopP, holdsPopC, hasHandle, PopperOk, PusherOk])
 
 theorem stepP_EInv_gone (s : St) (i : Nat) (op : Option POp)  (hpc : s.pp i = .gone )
     (hT : TInv s) (h : EInv s) : EInv (stepP s i op) := by
-  obtain ⟨e1, e2, e3, e4, e5, e6, e7⟩ := h
+  obtain ⟨e1, e2, e3, e4, e5, e6, e7, e8⟩ := h
   have hp : s.v.plock = true := by rw [hT.l.var]; rfl
+  have hq : s.v.pipe = false := by rw [hT.l.var]; rfl
   have hnh := closed_no_holder s hT.l
-  simp only [stepP, hpc, startP, St.endSample, St.beginSample, St.setP, hp, if_true]
+  simp only [stepP, hpc, startP, St.endSample, St.beginSample, St.setP, hp, hq, Bool.false_eq_true, if_false, if_true]
   repeat' split
   all_goals first
-    | exact ⟨e1, e2, e3, e4, e5, e6, e7⟩
-    | (refine ⟨?_, ?_, ?_, ?_, ?_, ?_, ?_⟩ <;> grind [Drained, upd, holdsPush, holdsPopP, holdsPopC, hasHandle, PopperOk, PusherOk])
+    | exact ⟨e1, e2, e3, e4, e5, e6, e7, e8⟩
+    | (refine ⟨?_, ?_, ?_, ?_, ?_, ?_, ?_, ?_⟩ <;> grind [Drained, upd, holdsPush, holdsPopP, holdsPopC, hasHandle, PopperOk, PusherOk])
 
 theorem stepP_EInv_idle (s : St) (i : Nat) (op : Option POp)  (hpc : s.pp i = .idle )
     (hT : TInv s) (h : EInv s) : EInv (stepP s i op) := by
-  obtain ⟨e1, e2, e3, e4, e5, e6, e7⟩ := h
+  obtain ⟨e1, e2, e3, e4, e5, e6, e7, e8⟩ := h
   have hp : s.v.plock = true := by rw [hT.l.var]; rfl
+  have hq : s.v.pipe = false := by rw [hT.l.var]; rfl
   have hnh := closed_no_holder s hT.l
-  simp only [stepP, hpc, startP, St.endSample, St.beginSample, St.setP, hp, if_true]
+  simp only [stepP, hpc, startP, St.endSample, St.beginSample, St.setP, hp, hq, Bool.false_eq_true, if_false, if_true]
   repeat' split
   all_goals first
-    | exact ⟨e1, e2, e3, e4, e5, e6, e7⟩
-    | (refine ⟨?_, ?_, ?_, ?_, ?_, ?_, ?_⟩ <;> grind [Drained, upd, holdsPush, holdsPopP, holdsPopC, hasHandle, PopperOk, PusherOk])
+    | exact ⟨e1, e2, e3, e4, e5, e6, e7, e8⟩
+    | (refine ⟨?_, ?_, ?_, ?_, ?_, ?_, ?_, ?_⟩ <;> grind [Drained, upd, holdsPush, holdsPopP, holdsPopC, hasHandle, PopperOk, PusherOk])
 
 theorem stepP_EInv_acq (s : St) (i : Nat) (op : Option POp) (k v rest) (hpc : s.pp i = .acq k v rest)
     (hT : TInv s) (h : EInv s) : EInv (stepP s i op) := by
-  obtain ⟨e1, e2, e3, e4, e5, e6, e7⟩ := h
+  obtain ⟨e1, e2, e3, e4, e5, e6, e7, e8⟩ := h
   have hp : s.v.plock = true := by rw [hT.l.var]; rfl
+  have hq : s.v.pipe = false := by rw [hT.l.var]; rfl
   have hnh := closed_no_holder s hT.l
-  simp only [stepP, hpc, startP, St.endSample, St.beginSample, St.setP, hp, if_true]
+  simp only [stepP, hpc, startP, St.endSample, St.beginSample, St.setP, hp, hq, Bool.false_eq_true, if_false, if_true]
   repeat' split
   all_goals first
-    | exact ⟨e1, e2, e3, e4, e5, e6, e7⟩
-    | (refine ⟨?_, ?_, ?_, ?_, ?_, ?_, ?_⟩ <;> grind [Drained, upd, holdsPush, holdsPopP, holdsPopC, hasHandle, PopperOk, PusherOk])
+    | exact ⟨e1, e2, e3, e4, e5, e6, e7, e8⟩
+    | (refine ⟨?_, ?_, ?_, ?_, ?_, ?_, ?_, ?_⟩ <;> grind [Drained, upd, holdsPush, holdsPopP, holdsPopC, hasHandle, PopperOk, PusherOk])
 
 theorem stepP_EInv_chk (s : St) (i : Nat) (op : Option POp) (k v rest) (hpc : s.pp i = .chk k v rest)
     (hT : TInv s) (h : EInv s) : EInv (stepP s i op) := by
-  obtain ⟨e1, e2, e3, e4, e5, e6, e7⟩ := h
+  obtain ⟨e1, e2, e3, e4, e5, e6, e7, e8⟩ := h
   have hp : s.v.plock = true := by rw [hT.l.var]; rfl
+  have hq : s.v.pipe = false := by rw [hT.l.var]; rfl
   have hnh := closed_no_holder s hT.l
-  simp only [stepP, hpc, startP, St.endSample, St.beginSample, St.setP, hp, if_true]
+  simp only [stepP, hpc, startP, St.endSample, St.beginSample, St.setP, hp, hq, Bool.false_eq_true, if_false, if_true]
   repeat' split
   all_goals first
-    | exact ⟨e1, e2, e3, e4, e5, e6, e7⟩
-    | (refine ⟨?_, ?_, ?_, ?_, ?_, ?_, ?_⟩ <;> grind [Drained, upd, holdsPush, holdsPopP, holdsPopC, hasHandle, PopperOk, PusherOk])
+    | exact ⟨e1, e2, e3, e4, e5, e6, e7, e8⟩
+    | (refine ⟨?_, ?_, ?_, ?_, ?_, ?_, ?_, ?_⟩ <;> grind [Drained, upd, holdsPush, holdsPopP, holdsPopC, hasHandle, PopperOk, PusherOk])
 
 theorem stepP_EInv_push (s : St) (i : Nat) (op : Option POp) (c v rest p) (hpc : s.pp i = .push c v rest p)
     (hT : TInv s) (h : EInv s) : EInv (stepP s i op) := by
-  obtain ⟨e1, e2, e3, e4, e5, e6, e7⟩ := h
+  obtain ⟨e1, e2, e3, e4, e5, e6, e7, e8⟩ := h
   have hp : s.v.plock = true := by rw [hT.l.var]; rfl
+  have hq : s.v.pipe = false := by rw [hT.l.var]; rfl
   have hnh := closed_no_holder s hT.l
   have hfr := pushStep_frame s.ring (i, v) p
-  simp only [stepP, hpc, startP, St.endSample, St.beginSample, St.setP, hp, if_true]
+  simp only [stepP, hpc, startP, St.endSample, St.beginSample, St.setP, hp, hq, Bool.false_eq_true, if_false, if_true]
   repeat' split
   all_goals first
-    | exact ⟨e1, e2, e3, e4, e5, e6, e7⟩
-    | (refine ⟨?_, ?_, ?_, ?_, ?_, ?_, ?_⟩ <;> grind [Drained, upd, holdsPush, holdsPopP, holdsPopC, hasHandle, PopperOk, PusherOk])
+    | exact ⟨e1, e2, e3, e4, e5, e6, e7, e8⟩
+    | (refine ⟨?_, ?_, ?_, ?_, ?_, ?_, ?_, ?_⟩ <;> grind [Drained, upd, holdsPush, holdsPopP, holdsPopC, hasHandle, PopperOk, PusherOk])
 
 theorem stepP_EInv_ntf (s : St) (i : Nat) (op : Option POp) (c rest) (hpc : s.pp i = .ntf c rest)
     (hT : TInv s) (h : EInv s) : EInv (stepP s i op) := by
-  obtain ⟨e1, e2, e3, e4, e5, e6, e7⟩ := h
+  obtain ⟨e1, e2, e3, e4, e5, e6, e7, e8⟩ := h
   have hp : s.v.plock = true := by rw [hT.l.var]; rfl
+  have hq : s.v.pipe = false := by rw [hT.l.var]; rfl
   have hnh := closed_no_holder s hT.l
-  simp only [stepP, hpc, startP, St.endSample, St.beginSample, St.setP, hp, if_true]
+  simp only [stepP, hpc, startP, St.endSample, St.beginSample, St.setP, hp, hq, Bool.false_eq_true, if_false, if_true]
   repeat' split
   all_goals first
-    | exact ⟨e1, e2, e3, e4, e5, e6, e7⟩
-    | (refine ⟨?_, ?_, ?_, ?_, ?_, ?_, ?_⟩ <;> grind [Drained, upd, holdsPush, holdsPopP, holdsPopC, hasHandle, PopperOk, PusherOk])
+    | exact ⟨e1, e2, e3, e4, e5, e6, e7, e8⟩
+    | (refine ⟨?_, ?_, ?_, ?_, ?_, ?_, ?_, ?_⟩ <;> grind [Drained, upd, holdsPush, holdsPopP, holdsPopC, hasHandle, PopperOk, PusherOk])
 
 theorem stepP_EInv_tryLock (s : St) (i : Nat) (op : Option POp) (v rest) (hpc : s.pp i = .tryLock v rest)
     (hT : TInv s) (h : EInv s) : EInv (stepP s i op) := by
-  obtain ⟨e1, e2, e3, e4, e5, e6, e7⟩ := h
+  obtain ⟨e1, e2, e3, e4, e5, e6, e7, e8⟩ := h
   have hp : s.v.plock = true := by rw [hT.l.var]; rfl
+  have hq : s.v.pipe = false := by rw [hT.l.var]; rfl
   have hnh := closed_no_holder s hT.l
-  simp only [stepP, hpc, startP, St.endSample, St.beginSample, St.setP, hp, if_true]
+  simp only [stepP, hpc, startP, St.endSample, St.beginSample, St.setP, hp, hq, Bool.false_eq_true, if_false, if_true]
   repeat' split
   all_goals first
-    | exact ⟨e1, e2, e3, e4, e5, e6, e7⟩
-    | (refine ⟨?_, ?_, ?_, ?_, ?_, ?_, ?_⟩ <;> grind [Drained, upd, holdsPush, holdsPopP, holdsPopC, hasHandle, PopperOk, PusherOk])
+    | exact ⟨e1, e2, e3, e4, e5, e6, e7, e8⟩
+    | (refine ⟨?_, ?_, ?_, ?_, ?_, ?_, ?_, ?_⟩ <;> grind [Drained, upd, holdsPush, holdsPopP, holdsPopC, hasHandle, PopperOk, PusherOk])
 
 theorem stepP_EInv_pop (s : St) (i : Nat) (op : Option POp) (v rest p) (hpc : s.pp i = .pop v rest p)
     (hT : TInv s) (h : EInv s) : EInv (stepP s i op) := by
-  obtain ⟨e1, e2, e3, e4, e5, e6, e7⟩ := h
+  obtain ⟨e1, e2, e3, e4, e5, e6, e7, e8⟩ := h
   have hp : s.v.plock = true := by rw [hT.l.var]; rfl
+  have hq : s.v.pipe = false := by rw [hT.l.var]; rfl
   have hnh := closed_no_holder s hT.l
   have hpl : s.plock = some i := (hT.l.plockIff i).1 (by simp [hpc, holdsPush])
   have hpo : s.poplock = some (.prod i) := (hT.l.poplockP i).1 (by simp [hpc, holdsPopP])
@@ -1080,193 +1188,197 @@ theorem stepP_EInv_pop (s : St) (i : Nat) (op : Option POp) (v rest p) (hpc : s.
   have hring := hT.ring
   rw [hview] at hring
   have hfr := popStep_frame s.ring p
-  simp only [stepP, hpc, startP, St.endSample, St.beginSample, St.setP, hp, if_true]
+  simp only [stepP, hpc, startP, St.endSample, St.beginSample, St.setP, hp, hq, Bool.false_eq_true, if_false, if_true]
   repeat' split
   all_goals first
-    | exact ⟨e1, e2, e3, e4, e5, e6, e7⟩
-    | (refine ⟨?_, ?_, ?_, ?_, ?_, ?_, ?_⟩ <;> grind [Drained, upd, holdsPush, holdsPopP, holdsPopC, hasHandle, PopperOk, PusherOk])
+    | exact ⟨e1, e2, e3, e4, e5, e6, e7, e8⟩
+    | (refine ⟨?_, ?_, ?_, ?_, ?_, ?_, ?_, ?_⟩ <;> grind [Drained, upd, holdsPush, holdsPopP, holdsPopC, hasHandle, PopperOk, PusherOk])
 
 theorem stepP_EInv_clone (s : St) (i : Nat) (op : Option POp) (j') (hpc : s.pp i = .clone j')
     (hT : TInv s) (h : EInv s) : EInv (stepP s i op) := by
-  obtain ⟨e1, e2, e3, e4, e5, e6, e7⟩ := h
+  obtain ⟨e1, e2, e3, e4, e5, e6, e7, e8⟩ := h
   have hp : s.v.plock = true := by rw [hT.l.var]; rfl
+  have hq : s.v.pipe = false := by rw [hT.l.var]; rfl
   have hnh := closed_no_holder s hT.l
-  simp only [stepP, hpc, startP, St.endSample, St.beginSample, St.setP, hp, if_true]
+  simp only [stepP, hpc, startP, St.endSample, St.beginSample, St.setP, hp, hq, Bool.false_eq_true, if_false, if_true]
   repeat' split
   all_goals first
-    | exact ⟨e1, e2, e3, e4, e5, e6, e7⟩
-    | (refine ⟨?_, ?_, ?_, ?_, ?_, ?_, ?_⟩ <;> grind [Drained, upd, holdsPush, holdsPopP, holdsPopC, hasHandle, PopperOk, PusherOk])
+    | exact ⟨e1, e2, e3, e4, e5, e6, e7, e8⟩
+    | (refine ⟨?_, ?_, ?_, ?_, ?_, ?_, ?_, ?_⟩ <;> grind [Drained, upd, holdsPush, holdsPopP, holdsPopC, hasHandle, PopperOk, PusherOk])
 
 theorem stepP_EInv_fetchSub (s : St) (i : Nat) (op : Option POp)  (hpc : s.pp i = .fetchSub )
     (hT : TInv s) (h : EInv s) : EInv (stepP s i op) := by
-  obtain ⟨e1, e2, e3, e4, e5, e6, e7⟩ := h
+  obtain ⟨e1, e2, e3, e4, e5, e6, e7, e8⟩ := h
   have hp : s.v.plock = true := by rw [hT.l.var]; rfl
+  have hq : s.v.pipe = false := by rw [hT.l.var]; rfl
   have hnh := closed_no_holder s hT.l
-  simp only [stepP, hpc, startP, St.endSample, St.beginSample, St.setP, hp, if_true]
+  simp only [stepP, hpc, startP, St.endSample, St.beginSample, St.setP, hp, hq, Bool.false_eq_true, if_false, if_true]
   repeat' split
   all_goals first
-    | exact ⟨e1, e2, e3, e4, e5, e6, e7⟩
-    | (refine ⟨?_, ?_, ?_, ?_, ?_, ?_, ?_⟩ <;> grind [Drained, upd, holdsPush, holdsPopP, holdsPopC, hasHandle, PopperOk, PusherOk])
+    | exact ⟨e1, e2, e3, e4, e5, e6, e7, e8⟩
+    | (refine ⟨?_, ?_, ?_, ?_, ?_, ?_, ?_, ?_⟩ <;> grind [Drained, upd, holdsPush, holdsPopP, holdsPopC, hasHandle, PopperOk, PusherOk])
 
 theorem stepP_EInv_stClosed (s : St) (i : Nat) (op : Option POp)  (hpc : s.pp i = .stClosed )
     (hT : TInv s) (h : EInv s) : EInv (stepP s i op) := by
-  obtain ⟨e1, e2, e3, e4, e5, e6, e7⟩ := h
+  obtain ⟨e1, e2, e3, e4, e5, e6, e7, e8⟩ := h
   have hp : s.v.plock = true := by rw [hT.l.var]; rfl
+  have hq : s.v.pipe = false := by rw [hT.l.var]; rfl
   have hnh := closed_no_holder s hT.l
-  simp only [stepP, hpc, startP, St.endSample, St.beginSample, St.setP, hp, if_true]
+  simp only [stepP, hpc, startP, St.endSample, St.beginSample, St.setP, hp, hq, Bool.false_eq_true, if_false, if_true]
   repeat' split
   all_goals first
-    | exact ⟨e1, e2, e3, e4, e5, e6, e7⟩
-    | (refine ⟨?_, ?_, ?_, ?_, ?_, ?_, ?_⟩ <;> grind [Drained, upd, holdsPush, holdsPopP, holdsPopC, hasHandle, PopperOk, PusherOk])
+    | exact ⟨e1, e2, e3, e4, e5, e6, e7, e8⟩
+    | (refine ⟨?_, ?_, ?_, ?_, ?_, ?_, ?_, ?_⟩ <;> grind [Drained, upd, holdsPush, holdsPopP, holdsPopC, hasHandle, PopperOk, PusherOk])
 
 theorem stepP_EInv_ntfW (s : St) (i : Nat) (op : Option POp)  (hpc : s.pp i = .ntfW )
     (hT : TInv s) (h : EInv s) : EInv (stepP s i op) := by
-  obtain ⟨e1, e2, e3, e4, e5, e6, e7⟩ := h
+  obtain ⟨e1, e2, e3, e4, e5, e6, e7, e8⟩ := h
   have hp : s.v.plock = true := by rw [hT.l.var]; rfl
+  have hq : s.v.pipe = false := by rw [hT.l.var]; rfl
   have hnh := closed_no_holder s hT.l
-  simp only [stepP, hpc, startP, St.endSample, St.beginSample, St.setP, hp, if_true]
+  simp only [stepP, hpc, startP, St.endSample, St.beginSample, St.setP, hp, hq, Bool.false_eq_true, if_false, if_true]
   repeat' split
   all_goals first
-    | exact ⟨e1, e2, e3, e4, e5, e6, e7⟩
-    | (refine ⟨?_, ?_, ?_, ?_, ?_, ?_, ?_⟩ <;> grind [Drained, upd, holdsPush, holdsPopP, holdsPopC, hasHandle, PopperOk, PusherOk])
+    | exact ⟨e1, e2, e3, e4, e5, e6, e7, e8⟩
+    | (refine ⟨?_, ?_, ?_, ?_, ?_, ?_, ?_, ?_⟩ <;> grind [Drained, upd, holdsPush, holdsPopP, holdsPopC, hasHandle, PopperOk, PusherOk])
 
 theorem stepC_EInv_idle (s : St) (start : Bool)  (hpc : s.cp = .idle )
-    (hT : TInv s) (hw : NoWrap s.ring) (h : EInv s) : EInv (stepC s start) := by
-  obtain ⟨e1, e2, e3, e4, e5, e6, e7⟩ := h
+    (hT : TInv s) (h : EInv s) : EInv (stepC s start) := by
+  obtain ⟨e1, e2, e3, e4, e5, e6, e7, e8⟩ := h
   have hr : s.v.rfix = true := by rw [hT.l.var]; rfl
   simp only [stepC, hpc, St.loopTop, St.retC, hr, if_true]
   repeat' split
   all_goals first
-    | exact ⟨e1, e2, e3, e4, e5, e6, e7⟩
-    | (refine ⟨?_, ?_, ?_, ?_, ?_, ?_, ?_⟩ <;> grind [Drained, upd, holdsPush, holdsPopP, holdsPopC, hasHandle, PopperOk, PusherOk])
+    | exact ⟨e1, e2, e3, e4, e5, e6, e7, e8⟩
+    | (refine ⟨?_, ?_, ?_, ?_, ?_, ?_, ?_, ?_⟩ <;> grind [Drained, upd, holdsPush, holdsPopP, holdsPopC, hasHandle, PopperOk, PusherOk])
 
 theorem stepC_EInv_mkNtf (s : St) (start : Bool)  (hpc : s.cp = .mkNtf )
-    (hT : TInv s) (hw : NoWrap s.ring) (h : EInv s) : EInv (stepC s start) := by
-  obtain ⟨e1, e2, e3, e4, e5, e6, e7⟩ := h
+    (hT : TInv s) (h : EInv s) : EInv (stepC s start) := by
+  obtain ⟨e1, e2, e3, e4, e5, e6, e7, e8⟩ := h
   have hr : s.v.rfix = true := by rw [hT.l.var]; rfl
   simp only [stepC, hpc, St.loopTop, St.retC, hr, if_true]
   repeat' split
   all_goals first
-    | exact ⟨e1, e2, e3, e4, e5, e6, e7⟩
-    | (refine ⟨?_, ?_, ?_, ?_, ?_, ?_, ?_⟩ <;> grind [Drained, upd, holdsPush, holdsPopP, holdsPopC, hasHandle, PopperOk, PusherOk])
+    | exact ⟨e1, e2, e3, e4, e5, e6, e7, e8⟩
+    | (refine ⟨?_, ?_, ?_, ?_, ?_, ?_, ?_, ?_⟩ <;> grind [Drained, upd, holdsPush, holdsPopP, holdsPopC, hasHandle, PopperOk, PusherOk])
 
 theorem stepC_EInv_ldEnded (s : St) (start : Bool) (g) (hpc : s.cp = .ldEnded g)
-    (hT : TInv s) (hw : NoWrap s.ring) (h : EInv s) : EInv (stepC s start) := by
-  obtain ⟨e1, e2, e3, e4, e5, e6, e7⟩ := h
+    (hT : TInv s) (h : EInv s) : EInv (stepC s start) := by
+  obtain ⟨e1, e2, e3, e4, e5, e6, e7, e8⟩ := h
   have hr : s.v.rfix = true := by rw [hT.l.var]; rfl
   simp only [stepC, hpc, St.loopTop, St.retC, hr, if_true]
   repeat' split
   all_goals first
-    | exact ⟨e1, e2, e3, e4, e5, e6, e7⟩
-    | (refine ⟨?_, ?_, ?_, ?_, ?_, ?_, ?_⟩ <;> grind [Drained, upd, holdsPush, holdsPopP, holdsPopC, hasHandle, PopperOk, PusherOk])
+    | exact ⟨e1, e2, e3, e4, e5, e6, e7, e8⟩
+    | (refine ⟨?_, ?_, ?_, ?_, ?_, ?_, ?_, ?_⟩ <;> grind [Drained, upd, holdsPush, holdsPopP, holdsPopC, hasHandle, PopperOk, PusherOk])
 
 theorem stepC_EInv_lock (s : St) (start : Bool) (g) (hpc : s.cp = .lock g)
-    (hT : TInv s) (hw : NoWrap s.ring) (h : EInv s) : EInv (stepC s start) := by
-  obtain ⟨e1, e2, e3, e4, e5, e6, e7⟩ := h
+    (hT : TInv s) (h : EInv s) : EInv (stepC s start) := by
+  obtain ⟨e1, e2, e3, e4, e5, e6, e7, e8⟩ := h
   have hr : s.v.rfix = true := by rw [hT.l.var]; rfl
   simp only [stepC, hpc, St.loopTop, St.retC, hr, if_true]
   repeat' split
   all_goals first
-    | exact ⟨e1, e2, e3, e4, e5, e6, e7⟩
-    | (refine ⟨?_, ?_, ?_, ?_, ?_, ?_, ?_⟩ <;> grind [Drained, upd, holdsPush, holdsPopP, holdsPopC, hasHandle, PopperOk, PusherOk])
+    | exact ⟨e1, e2, e3, e4, e5, e6, e7, e8⟩
+    | (refine ⟨?_, ?_, ?_, ?_, ?_, ?_, ?_, ?_⟩ <;> grind [Drained, upd, holdsPush, holdsPopP, holdsPopC, hasHandle, PopperOk, PusherOk])
 
 theorem stepC_EInv_ldClosed1 (s : St) (start : Bool) (g) (hpc : s.cp = .ldClosed1 g)
-    (hT : TInv s) (hw : NoWrap s.ring) (h : EInv s) : EInv (stepC s start) := by
-  obtain ⟨e1, e2, e3, e4, e5, e6, e7⟩ := h
+    (hT : TInv s) (h : EInv s) : EInv (stepC s start) := by
+  obtain ⟨e1, e2, e3, e4, e5, e6, e7, e8⟩ := h
   have hr : s.v.rfix = true := by rw [hT.l.var]; rfl
   simp only [stepC, hpc, St.loopTop, St.retC, hr, if_true]
   repeat' split
   all_goals first
-    | exact ⟨e1, e2, e3, e4, e5, e6, e7⟩
-    | (refine ⟨?_, ?_, ?_, ?_, ?_, ?_, ?_⟩ <;> grind [Drained, upd, holdsPush, holdsPopP, holdsPopC, hasHandle, PopperOk, PusherOk])
+    | exact ⟨e1, e2, e3, e4, e5, e6, e7, e8⟩
+    | (refine ⟨?_, ?_, ?_, ?_, ?_, ?_, ?_, ?_⟩ <;> grind [Drained, upd, holdsPush, holdsPopP, holdsPopC, hasHandle, PopperOk, PusherOk])
 
 theorem stepC_EInv_pop (s : St) (start : Bool) (g cl p) (hpc : s.cp = .pop g cl p)
-    (hT : TInv s) (hw : NoWrap s.ring) (h : EInv s) : EInv (stepC s start) := by
-  obtain ⟨e1, e2, e3, e4, e5, e6, e7⟩ := h
+    (hT : TInv s) (h : EInv s) : EInv (stepC s start) := by
+  obtain ⟨e1, e2, e3, e4, e5, e6, e7, e8⟩ := h
   have hr : s.v.rfix = true := by rw [hT.l.var]; rfl
   have hpo : s.poplock = some .cons := hT.l.poplockC.1 (by simp [hpc, holdsPopC])
   have hview : s.poView = some p := by simp [St.poView, hpo, hpc, popViewC]
   have hring := hT.ring
   rw [hview] at hring
-  obtain ⟨k1, k2, k3⟩ := popStep_inv hring hw
+  obtain ⟨k1, k2, k3⟩ := popStep_inv hring
   have hfr := popStep_frame s.ring p
-  have hle := popStep_le hring hw
+  have hle := popStep_le hring
   simp only [stepC, hpc, St.loopTop, St.retC, hr, if_true]
   repeat' split
   all_goals first
-    | exact ⟨e1, e2, e3, e4, e5, e6, e7⟩
-    | (refine ⟨?_, ?_, ?_, ?_, ?_, ?_, ?_⟩ <;> grind [Drained, upd, holdsPush, holdsPopP, holdsPopC, hasHandle, PopperOk, PusherOk])
+    | exact ⟨e1, e2, e3, e4, e5, e6, e7, e8⟩
+    | (refine ⟨?_, ?_, ?_, ?_, ?_, ?_, ?_, ?_⟩ <;> grind [Drained, upd, holdsPush, holdsPopP, holdsPopC, hasHandle, PopperOk, PusherOk])
 
 theorem stepC_EInv_ldClosedOld (s : St) (start : Bool)  (hpc : s.cp = .ldClosedOld )
-    (hT : TInv s) (hw : NoWrap s.ring) (h : EInv s) : EInv (stepC s start) := by
-  obtain ⟨e1, e2, e3, e4, e5, e6, e7⟩ := h
+    (hT : TInv s) (h : EInv s) : EInv (stepC s start) := by
+  obtain ⟨e1, e2, e3, e4, e5, e6, e7, e8⟩ := h
   have hr : s.v.rfix = true := by rw [hT.l.var]; rfl
   simp only [stepC, hpc, St.loopTop, St.retC, hr, if_true]
   repeat' split
   all_goals first
-    | exact ⟨e1, e2, e3, e4, e5, e6, e7⟩
-    | (refine ⟨?_, ?_, ?_, ?_, ?_, ?_, ?_⟩ <;> grind [Drained, upd, holdsPush, holdsPopP, holdsPopC, hasHandle, PopperOk, PusherOk])
+    | exact ⟨e1, e2, e3, e4, e5, e6, e7, e8⟩
+    | (refine ⟨?_, ?_, ?_, ?_, ?_, ?_, ?_, ?_⟩ <;> grind [Drained, upd, holdsPush, holdsPopP, holdsPopC, hasHandle, PopperOk, PusherOk])
 
 theorem stepC_EInv_stEnded (s : St) (start : Bool)  (hpc : s.cp = .stEnded )
-    (hT : TInv s) (hw : NoWrap s.ring) (h : EInv s) : EInv (stepC s start) := by
-  obtain ⟨e1, e2, e3, e4, e5, e6, e7⟩ := h
+    (hT : TInv s) (h : EInv s) : EInv (stepC s start) := by
+  obtain ⟨e1, e2, e3, e4, e5, e6, e7, e8⟩ := h
   have hr : s.v.rfix = true := by rw [hT.l.var]; rfl
   simp only [stepC, hpc, St.loopTop, St.retC, hr, if_true]
   repeat' split
   all_goals first
-    | exact ⟨e1, e2, e3, e4, e5, e6, e7⟩
-    | (refine ⟨?_, ?_, ?_, ?_, ?_, ?_, ?_⟩ <;> grind [Drained, upd, holdsPush, holdsPopP, holdsPopC, hasHandle, PopperOk, PusherOk])
+    | exact ⟨e1, e2, e3, e4, e5, e6, e7, e8⟩
+    | (refine ⟨?_, ?_, ?_, ?_, ?_, ?_, ?_, ?_⟩ <;> grind [Drained, upd, holdsPush, holdsPopP, holdsPopC, hasHandle, PopperOk, PusherOk])
 
 theorem stepC_EInv_await1 (s : St) (start : Bool) (g) (hpc : s.cp = .await1 g)
-    (hT : TInv s) (hw : NoWrap s.ring) (h : EInv s) : EInv (stepC s start) := by
-  obtain ⟨e1, e2, e3, e4, e5, e6, e7⟩ := h
+    (hT : TInv s) (h : EInv s) : EInv (stepC s start) := by
+  obtain ⟨e1, e2, e3, e4, e5, e6, e7, e8⟩ := h
   have hr : s.v.rfix = true := by rw [hT.l.var]; rfl
   simp only [stepC, hpc, St.loopTop, St.retC, hr, if_true]
   repeat' split
   all_goals first
-    | exact ⟨e1, e2, e3, e4, e5, e6, e7⟩
-    | (refine ⟨?_, ?_, ?_, ?_, ?_, ?_, ?_⟩ <;> grind [Drained, upd, holdsPush, holdsPopP, holdsPopC, hasHandle, PopperOk, PusherOk])
+    | exact ⟨e1, e2, e3, e4, e5, e6, e7, e8⟩
+    | (refine ⟨?_, ?_, ?_, ?_, ?_, ?_, ?_, ?_⟩ <;> grind [Drained, upd, holdsPush, holdsPopP, holdsPopC, hasHandle, PopperOk, PusherOk])
 
 theorem stepC_EInv_await2 (s : St) (start : Bool)  (hpc : s.cp = .await2 )
-    (hT : TInv s) (hw : NoWrap s.ring) (h : EInv s) : EInv (stepC s start) := by
-  obtain ⟨e1, e2, e3, e4, e5, e6, e7⟩ := h
+    (hT : TInv s) (h : EInv s) : EInv (stepC s start) := by
+  obtain ⟨e1, e2, e3, e4, e5, e6, e7, e8⟩ := h
   have hr : s.v.rfix = true := by rw [hT.l.var]; rfl
   simp only [stepC, hpc, St.loopTop, St.retC, hr, if_true]
   repeat' split
   all_goals first
-    | exact ⟨e1, e2, e3, e4, e5, e6, e7⟩
-    | (refine ⟨?_, ?_, ?_, ?_, ?_, ?_, ?_⟩ <;> grind [Drained, upd, holdsPush, holdsPopP, holdsPopC, hasHandle, PopperOk, PusherOk])
+    | exact ⟨e1, e2, e3, e4, e5, e6, e7, e8⟩
+    | (refine ⟨?_, ?_, ?_, ?_, ?_, ?_, ?_, ?_⟩ <;> grind [Drained, upd, holdsPush, holdsPopP, holdsPopC, hasHandle, PopperOk, PusherOk])
 
 theorem stepC_EInv_ldClosed2 (s : St) (start : Bool)  (hpc : s.cp = .ldClosed2 )
-    (hT : TInv s) (hw : NoWrap s.ring) (h : EInv s) : EInv (stepC s start) := by
-  obtain ⟨e1, e2, e3, e4, e5, e6, e7⟩ := h
+    (hT : TInv s) (h : EInv s) : EInv (stepC s start) := by
+  obtain ⟨e1, e2, e3, e4, e5, e6, e7, e8⟩ := h
   have hr : s.v.rfix = true := by rw [hT.l.var]; rfl
   simp only [stepC, hpc, St.loopTop, St.retC, hr, if_true]
   repeat' split
   all_goals first
-    | exact ⟨e1, e2, e3, e4, e5, e6, e7⟩
-    | (refine ⟨?_, ?_, ?_, ?_, ?_, ?_, ?_⟩ <;> grind [Drained, upd, holdsPush, holdsPopP, holdsPopC, hasHandle, PopperOk, PusherOk])
+    | exact ⟨e1, e2, e3, e4, e5, e6, e7, e8⟩
+    | (refine ⟨?_, ?_, ?_, ?_, ?_, ?_, ?_, ?_⟩ <;> grind [Drained, upd, holdsPush, holdsPopP, holdsPopC, hasHandle, PopperOk, PusherOk])
 
 theorem stepC_EInv_isEmpty (s : St) (start : Bool)  (hpc : s.cp = .isEmpty )
-    (hT : TInv s) (hw : NoWrap s.ring) (h : EInv s) : EInv (stepC s start) := by
-  obtain ⟨e1, e2, e3, e4, e5, e6, e7⟩ := h
+    (hT : TInv s) (h : EInv s) : EInv (stepC s start) := by
+  obtain ⟨e1, e2, e3, e4, e5, e6, e7, e8⟩ := h
   have hr : s.v.rfix = true := by rw [hT.l.var]; rfl
   have hie := isEmpty_drained s hT
   simp only [stepC, hpc, St.loopTop, St.retC, hr, if_true]
   repeat' split
   all_goals first
-    | exact ⟨e1, e2, e3, e4, e5, e6, e7⟩
-    | (refine ⟨?_, ?_, ?_, ?_, ?_, ?_, ?_⟩ <;> grind [Drained, upd, holdsPush, holdsPopP, holdsPopC, hasHandle, PopperOk, PusherOk])
+    | exact ⟨e1, e2, e3, e4, e5, e6, e7, e8⟩
+    | (refine ⟨?_, ?_, ?_, ?_, ?_, ?_, ?_, ?_⟩ <;> grind [Drained, upd, holdsPush, holdsPopP, holdsPopC, hasHandle, PopperOk, PusherOk])
 
 theorem stepC_EInv_stEnded2 (s : St) (start : Bool)  (hpc : s.cp = .stEnded2 )
-    (hT : TInv s) (hw : NoWrap s.ring) (h : EInv s) : EInv (stepC s start) := by
-  obtain ⟨e1, e2, e3, e4, e5, e6, e7⟩ := h
+    (hT : TInv s) (h : EInv s) : EInv (stepC s start) := by
+  obtain ⟨e1, e2, e3, e4, e5, e6, e7, e8⟩ := h
   have hr : s.v.rfix = true := by rw [hT.l.var]; rfl
   simp only [stepC, hpc, St.loopTop, St.retC, hr, if_true]
   repeat' split
   all_goals first
-    | exact ⟨e1, e2, e3, e4, e5, e6, e7⟩
-    | (refine ⟨?_, ?_, ?_, ?_, ?_, ?_, ?_⟩ <;> grind [Drained, upd, holdsPush, holdsPopP, holdsPopC, hasHandle, PopperOk, PusherOk])
+    | exact ⟨e1, e2, e3, e4, e5, e6, e7, e8⟩
+    | (refine ⟨?_, ?_, ?_, ?_, ?_, ?_, ?_, ?_⟩ <;> grind [Drained, upd, holdsPush, holdsPopP, holdsPopC, hasHandle, PopperOk, PusherOk])
 
 theorem stepP_EInv (s : St) (i : Nat) (op : Option POp) (hT : TInv s) (h : EInv s) : EInv (stepP s i op) := by
   cases hpc : s.pp i with
@@ -1285,50 +1397,52 @@ theorem stepP_EInv (s : St) (i : Nat) (op : Option POp) (hT : TInv s) (h : EInv 
   | stClosed  => exact stepP_EInv_stClosed s i op  hpc hT h
   | ntfW  => exact stepP_EInv_ntfW s i op  hpc hT h
 
-theorem stepC_EInv (s : St) (start : Bool) (hT : TInv s) (hw : NoWrap s.ring) (h : EInv s) : EInv (stepC s start) := by
+theorem stepC_EInv (s : St) (start : Bool) (hT : TInv s) (h : EInv s) : EInv (stepC s start) := by
   cases hpc : s.cp with
-  | idle  => exact stepC_EInv_idle s start  hpc hT hw h
-  | mkNtf  => exact stepC_EInv_mkNtf s start  hpc hT hw h
-  | ldEnded g => exact stepC_EInv_ldEnded s start g hpc hT hw h
-  | lock g => exact stepC_EInv_lock s start g hpc hT hw h
-  | ldClosed1 g => exact stepC_EInv_ldClosed1 s start g hpc hT hw h
-  | pop g cl p => exact stepC_EInv_pop s start g cl p hpc hT hw h
-  | ldClosedOld  => exact stepC_EInv_ldClosedOld s start  hpc hT hw h
-  | stEnded  => exact stepC_EInv_stEnded s start  hpc hT hw h
-  | await1 g => exact stepC_EInv_await1 s start g hpc hT hw h
-  | await2  => exact stepC_EInv_await2 s start  hpc hT hw h
-  | ldClosed2  => exact stepC_EInv_ldClosed2 s start  hpc hT hw h
-  | isEmpty  => exact stepC_EInv_isEmpty s start  hpc hT hw h
-  | stEnded2  => exact stepC_EInv_stEnded2 s start  hpc hT hw h
+  | idle  => exact stepC_EInv_idle s start  hpc hT h
+  | mkNtf  => exact stepC_EInv_mkNtf s start  hpc hT h
+  | ldEnded g => exact stepC_EInv_ldEnded s start g hpc hT h
+  | lock g => exact stepC_EInv_lock s start g hpc hT h
+  | ldClosed1 g => exact stepC_EInv_ldClosed1 s start g hpc hT h
+  | pop g cl p => exact stepC_EInv_pop s start g cl p hpc hT h
+  | ldClosedOld  => exact stepC_EInv_ldClosedOld s start  hpc hT h
+  | stEnded  => exact stepC_EInv_stEnded s start  hpc hT h
+  | await1 g => exact stepC_EInv_await1 s start g hpc hT h
+  | await2  => exact stepC_EInv_await2 s start  hpc hT h
+  | ldClosed2  => exact stepC_EInv_ldClosed2 s start  hpc hT h
+  | isEmpty  => exact stepC_EInv_isEmpty s start  hpc hT h
+  | stEnded2  => exact stepC_EInv_stEnded2 s start  hpc hT h
 
 theorem stepS_EInv (s : St) (start : Bool) (h : EInv s) : EInv (stepS s start) := by
-  obtain ⟨e1, e2, e3, e4, e5, e6, e7⟩ := h
+  obtain ⟨e1, e2, e3, e4, e5, e6, e7, e8⟩ := h
   simp only [stepS]
   repeat' split
   all_goals first
-    | exact ⟨e1, e2, e3, e4, e5, e6, e7⟩
-    | (refine ⟨?_, ?_, ?_, ?_, ?_, ?_, ?_⟩ <;> grind [Drained])
+    | exact ⟨e1, e2, e3, e4, e5, e6, e7, e8⟩
+    | (refine ⟨?_, ?_, ?_, ?_, ?_, ?_, ?_, ?_⟩ <;> grind [Drained])
 
 theorem EInv.init (cap W : Nat) : EInv (St.init Variant.cur cap W 0) := by
-  refine ⟨?_, ?_, ?_, ?_, ?_, ?_, ?_⟩ <;> simp [St.init]
+  refine ⟨?_, ?_, ?_, ?_, ?_, ?_, ?_, ?_⟩ <;> simp [St.init]
 
 /-- everything together -/
 structure FInv (s : St) : Prop where
   t : TInv s
   e : EInv s
 
-theorem step_FInv (s : St) (l : Label) (h : FInv s) (hw : NoWrap s.ring) : FInv (step s l) := by
-  refine ⟨step_TInv s l h.t hw, ?_⟩
+theorem step_FInv (s : St) (l : Label) (h : FInv s) : FInv (step s l) := by
+  refine ⟨step_TInv s l h.t, ?_⟩
   cases l with
   | prod i op => exact stepP_EInv s i op h.t h.e
-  | cons st => exact stepC_EInv s st h.t hw h.e
+  | cons st => exact stepC_EInv s st h.t h.e
   | stop st => exact stepS_EInv s st h.e
+  | rcv op => have hq : s.v.pipe = false := by rw [h.t.l.var]; rfl
+              simpa [step, stepR, hq] using h.e
 
-theorem FInv.init (cap W : Nat) (h0 : 0 < cap) (h1 : cap < W) : FInv (St.init Variant.cur cap W 0) :=
-  ⟨TInv.init cap W h0 h1, EInv.init cap W⟩
+theorem FInv.init (cap k : Nat) (h0 : 0 < cap) (h1 : cap < 2 ^ k) : FInv (St.init Variant.cur cap (2 ^ k) 0) :=
+  ⟨TInv.init cap k h0 h1, EInv.init cap (2 ^ k)⟩
 
-theorem run_FInv (s : St) (ls : List Label) (h : FInv s) (hw : NoWrap (run s ls).ring) : FInv (run s ls) :=
-  run_induct FInv step_FInv s ls h hw
+theorem run_FInv (s : St) (ls : List Label) (h : FInv s) : FInv (run s ls) :=
+  run_induct FInv step_FInv s ls h
 
 /-! ### the closing `notify_waiters` is never lost -/
 
@@ -1367,7 +1481,8 @@ theorem stepP_NInv_none (s : St) (i : Nat) (op : Option POp)  (hpc : s.pp i = .n
     (hL : LInv s) (h : NInv s) : NInv (stepP s i op) := by
   obtain ⟨n1, n2, n3, n4, n5, n6⟩ := h
   have hp : s.v.plock = true := by rw [hL.var]; rfl
-  simp only [stepP, hpc, startP, St.endSample, St.beginSample, St.setP, hp, if_true]
+  have hq : s.v.pipe = false := by rw [hL.var]; rfl
+  simp only [stepP, hpc, startP, St.endSample, St.beginSample, St.setP, hp, hq, Bool.false_eq_true, if_false, if_true]
   repeat' split
   all_goals first
     | exact ⟨n1, n2, n3, n4, n5, n6⟩
@@ -1377,7 +1492,8 @@ theorem stepP_NInv_reserved (s : St) (i : Nat) (op : Option POp)  (hpc : s.pp i 
     (hL : LInv s) (h : NInv s) : NInv (stepP s i op) := by
   obtain ⟨n1, n2, n3, n4, n5, n6⟩ := h
   have hp : s.v.plock = true := by rw [hL.var]; rfl
-  simp only [stepP, hpc, startP, St.endSample, St.beginSample, St.setP, hp, if_true]
+  have hq : s.v.pipe = false := by rw [hL.var]; rfl
+  simp only [stepP, hpc, startP, St.endSample, St.beginSample, St.setP, hp, hq, Bool.false_eq_true, if_false, if_true]
   repeat' split
   all_goals first
     | exact ⟨n1, n2, n3, n4, n5, n6⟩
@@ -1387,7 +1503,8 @@ theorem stepP_NInv_gone (s : St) (i : Nat) (op : Option POp)  (hpc : s.pp i = .g
     (hL : LInv s) (h : NInv s) : NInv (stepP s i op) := by
   obtain ⟨n1, n2, n3, n4, n5, n6⟩ := h
   have hp : s.v.plock = true := by rw [hL.var]; rfl
-  simp only [stepP, hpc, startP, St.endSample, St.beginSample, St.setP, hp, if_true]
+  have hq : s.v.pipe = false := by rw [hL.var]; rfl
+  simp only [stepP, hpc, startP, St.endSample, St.beginSample, St.setP, hp, hq, Bool.false_eq_true, if_false, if_true]
   repeat' split
   all_goals first
     | exact ⟨n1, n2, n3, n4, n5, n6⟩
@@ -1397,7 +1514,8 @@ theorem stepP_NInv_idle (s : St) (i : Nat) (op : Option POp)  (hpc : s.pp i = .i
     (hL : LInv s) (h : NInv s) : NInv (stepP s i op) := by
   obtain ⟨n1, n2, n3, n4, n5, n6⟩ := h
   have hp : s.v.plock = true := by rw [hL.var]; rfl
-  simp only [stepP, hpc, startP, St.endSample, St.beginSample, St.setP, hp, if_true]
+  have hq : s.v.pipe = false := by rw [hL.var]; rfl
+  simp only [stepP, hpc, startP, St.endSample, St.beginSample, St.setP, hp, hq, Bool.false_eq_true, if_false, if_true]
   repeat' split
   all_goals first
     | exact ⟨n1, n2, n3, n4, n5, n6⟩
@@ -1407,7 +1525,8 @@ theorem stepP_NInv_acq (s : St) (i : Nat) (op : Option POp) (k v rest) (hpc : s.
     (hL : LInv s) (h : NInv s) : NInv (stepP s i op) := by
   obtain ⟨n1, n2, n3, n4, n5, n6⟩ := h
   have hp : s.v.plock = true := by rw [hL.var]; rfl
-  simp only [stepP, hpc, startP, St.endSample, St.beginSample, St.setP, hp, if_true]
+  have hq : s.v.pipe = false := by rw [hL.var]; rfl
+  simp only [stepP, hpc, startP, St.endSample, St.beginSample, St.setP, hp, hq, Bool.false_eq_true, if_false, if_true]
   repeat' split
   all_goals first
     | exact ⟨n1, n2, n3, n4, n5, n6⟩
@@ -1417,7 +1536,8 @@ theorem stepP_NInv_chk (s : St) (i : Nat) (op : Option POp) (k v rest) (hpc : s.
     (hL : LInv s) (h : NInv s) : NInv (stepP s i op) := by
   obtain ⟨n1, n2, n3, n4, n5, n6⟩ := h
   have hp : s.v.plock = true := by rw [hL.var]; rfl
-  simp only [stepP, hpc, startP, St.endSample, St.beginSample, St.setP, hp, if_true]
+  have hq : s.v.pipe = false := by rw [hL.var]; rfl
+  simp only [stepP, hpc, startP, St.endSample, St.beginSample, St.setP, hp, hq, Bool.false_eq_true, if_false, if_true]
   repeat' split
   all_goals first
     | exact ⟨n1, n2, n3, n4, n5, n6⟩
@@ -1427,7 +1547,8 @@ theorem stepP_NInv_push (s : St) (i : Nat) (op : Option POp) (c v rest p) (hpc :
     (hL : LInv s) (h : NInv s) : NInv (stepP s i op) := by
   obtain ⟨n1, n2, n3, n4, n5, n6⟩ := h
   have hp : s.v.plock = true := by rw [hL.var]; rfl
-  simp only [stepP, hpc, startP, St.endSample, St.beginSample, St.setP, hp, if_true]
+  have hq : s.v.pipe = false := by rw [hL.var]; rfl
+  simp only [stepP, hpc, startP, St.endSample, St.beginSample, St.setP, hp, hq, Bool.false_eq_true, if_false, if_true]
   repeat' split
   all_goals first
     | exact ⟨n1, n2, n3, n4, n5, n6⟩
@@ -1437,7 +1558,8 @@ theorem stepP_NInv_ntf (s : St) (i : Nat) (op : Option POp) (c rest) (hpc : s.pp
     (hL : LInv s) (h : NInv s) : NInv (stepP s i op) := by
   obtain ⟨n1, n2, n3, n4, n5, n6⟩ := h
   have hp : s.v.plock = true := by rw [hL.var]; rfl
-  simp only [stepP, hpc, startP, St.endSample, St.beginSample, St.setP, hp, if_true]
+  have hq : s.v.pipe = false := by rw [hL.var]; rfl
+  simp only [stepP, hpc, startP, St.endSample, St.beginSample, St.setP, hp, hq, Bool.false_eq_true, if_false, if_true]
   repeat' split
   all_goals first
     | exact ⟨n1, n2, n3, n4, n5, n6⟩
@@ -1447,7 +1569,8 @@ theorem stepP_NInv_tryLock (s : St) (i : Nat) (op : Option POp) (v rest) (hpc : 
     (hL : LInv s) (h : NInv s) : NInv (stepP s i op) := by
   obtain ⟨n1, n2, n3, n4, n5, n6⟩ := h
   have hp : s.v.plock = true := by rw [hL.var]; rfl
-  simp only [stepP, hpc, startP, St.endSample, St.beginSample, St.setP, hp, if_true]
+  have hq : s.v.pipe = false := by rw [hL.var]; rfl
+  simp only [stepP, hpc, startP, St.endSample, St.beginSample, St.setP, hp, hq, Bool.false_eq_true, if_false, if_true]
   repeat' split
   all_goals first
     | exact ⟨n1, n2, n3, n4, n5, n6⟩
@@ -1457,7 +1580,8 @@ theorem stepP_NInv_pop (s : St) (i : Nat) (op : Option POp) (v rest p) (hpc : s.
     (hL : LInv s) (h : NInv s) : NInv (stepP s i op) := by
   obtain ⟨n1, n2, n3, n4, n5, n6⟩ := h
   have hp : s.v.plock = true := by rw [hL.var]; rfl
-  simp only [stepP, hpc, startP, St.endSample, St.beginSample, St.setP, hp, if_true]
+  have hq : s.v.pipe = false := by rw [hL.var]; rfl
+  simp only [stepP, hpc, startP, St.endSample, St.beginSample, St.setP, hp, hq, Bool.false_eq_true, if_false, if_true]
   repeat' split
   all_goals first
     | exact ⟨n1, n2, n3, n4, n5, n6⟩
@@ -1467,8 +1591,9 @@ theorem stepP_NInv_clone (s : St) (i : Nat) (op : Option POp) (j') (hpc : s.pp i
     (hL : LInv s) (h : NInv s) : NInv (stepP s i op) := by
   obtain ⟨n1, n2, n3, n4, n5, n6⟩ := h
   have hp : s.v.plock = true := by rw [hL.var]; rfl
+  have hq : s.v.pipe = false := by rw [hL.var]; rfl
   have hres := hL.cloneRes i j' hpc
-  simp only [stepP, hpc, startP, St.endSample, St.beginSample, St.setP, hp, if_true]
+  simp only [stepP, hpc, startP, St.endSample, St.beginSample, St.setP, hp, hq, Bool.false_eq_true, if_false, if_true]
   repeat' split
   all_goals first
     | exact ⟨n1, n2, n3, n4, n5, n6⟩
@@ -1478,7 +1603,8 @@ theorem stepP_NInv_fetchSub (s : St) (i : Nat) (op : Option POp)  (hpc : s.pp i 
     (hL : LInv s) (h : NInv s) : NInv (stepP s i op) := by
   obtain ⟨n1, n2, n3, n4, n5, n6⟩ := h
   have hp : s.v.plock = true := by rw [hL.var]; rfl
-  simp only [stepP, hpc, startP, St.endSample, St.beginSample, St.setP, hp, if_true]
+  have hq : s.v.pipe = false := by rw [hL.var]; rfl
+  simp only [stepP, hpc, startP, St.endSample, St.beginSample, St.setP, hp, hq, Bool.false_eq_true, if_false, if_true]
   repeat' split
   all_goals first
     | exact ⟨n1, n2, n3, n4, n5, n6⟩
@@ -1488,7 +1614,8 @@ theorem stepP_NInv_stClosed (s : St) (i : Nat) (op : Option POp)  (hpc : s.pp i 
     (hL : LInv s) (h : NInv s) : NInv (stepP s i op) := by
   obtain ⟨n1, n2, n3, n4, n5, n6⟩ := h
   have hp : s.v.plock = true := by rw [hL.var]; rfl
-  simp only [stepP, hpc, startP, St.endSample, St.beginSample, St.setP, hp, if_true]
+  have hq : s.v.pipe = false := by rw [hL.var]; rfl
+  simp only [stepP, hpc, startP, St.endSample, St.beginSample, St.setP, hp, hq, Bool.false_eq_true, if_false, if_true]
   repeat' split
   all_goals first
     | exact ⟨n1, n2, n3, n4, n5, n6⟩
@@ -1498,7 +1625,8 @@ theorem stepP_NInv_ntfW (s : St) (i : Nat) (op : Option POp)  (hpc : s.pp i = .n
     (hL : LInv s) (h : NInv s) : NInv (stepP s i op) := by
   obtain ⟨n1, n2, n3, n4, n5, n6⟩ := h
   have hp : s.v.plock = true := by rw [hL.var]; rfl
-  simp only [stepP, hpc, startP, St.endSample, St.beginSample, St.setP, hp, if_true]
+  have hq : s.v.pipe = false := by rw [hL.var]; rfl
+  simp only [stepP, hpc, startP, St.endSample, St.beginSample, St.setP, hp, hq, Bool.false_eq_true, if_false, if_true]
   repeat' split
   all_goals first
     | exact ⟨n1, n2, n3, n4, n5, n6⟩
@@ -1678,7 +1806,7 @@ theorem stepC_NInv (s : St) (start : Bool) (hL : LInv s) (h : NInv s) : NInv (st
 theorem NInv.init (cap W : Nat) : NInv (St.init Variant.cur cap W 0) := by
   refine ⟨?_, ?_, ?_, ?_, ?_, ?_⟩ <;> simp [St.init, capturedGen]
 
-/-- control invariant + wake-up invariant (independent of the ring, hence of `NoWrap`) -/
+/-- control invariant + wake-up invariant (independent of the ring) -/
 structure WInv (s : St) : Prop where
   l : LInv s
   n : NInv s
@@ -1689,6 +1817,8 @@ theorem step_WInv (s : St) (l : Label) (h : WInv s) : WInv (step s l) := by
   | prod i op => exact stepP_NInv s i op h.l h.n
   | cons st => exact stepC_NInv s st h.l h.n
   | stop st => exact stepS_NInv s st h.n
+  | rcv op => have hq : s.v.pipe = false := by rw [h.l.var]; rfl
+              simpa [step, stepR, hq] using h.n
 
 theorem run_WInv (s : St) (ls : List Label) (h : WInv s) : WInv (run s ls) := by
   induction ls generalizing s with
